@@ -1,6 +1,7 @@
-(* Stages B-D, part 3: the VM model running [pcode] from an empty stack ends with exactly the value - or stops with
-   exactly the error class - that [run_stmts] gives (whenever the latter's fuel suffices); variable i lives in global
-   slot i; conditionals and loops, nested to any depth, run through their jumps. *)
+(* Stages B-E, part 3: the VM model running [pcode] from an empty stack ends with exactly the value - or stops with
+   exactly the error class - that [run_stmts] gives (whenever the latter's fuel suffices); the visible variable at
+   position i lives in the global slot [scope]_i; conditionals and loops, nested to any depth, run through their jumps;
+   when a block ends, its slots simply stay behind. *)
 From Coq Require Import List ZArith NArith Bool Arith Lia.
 Require Import RV.model.Syntax RV.model.Compiler RV.model.VM.
 Require Import RV.proofs.VMScalarProofs.
@@ -36,36 +37,84 @@ Section VarVM.
     nth_error instr ip = Some 72%N -> runs (S f) ip (v :: st) s = runs f (S ip) st s.
   Proof. intros H. cbn [exec]. rewrite H. reflexivity. Qed.
 
-  (* the global slots hold the declared variables, and there is room for the ones still to be declared *)
-  Definition vm_inv (rho : list F.sval) (room : nat) (s : mstate) : Prop :=
-    length rho + room <= length (globals s) /\
-    forall i, i < length rho -> nth i (globals s) VGoNil = inj (nth i rho F.VNil).
+  (* the global slots [scope] hold the visible variables [rho] *)
+  Definition vm_inv (rho : list F.sval) (scope : list nat) (s : mstate) : Prop :=
+    length scope = length rho /\ NoDup scope /\
+    forall i, i < length rho -> nth (nth i scope 0) (globals s) VGoNil = inj (nth i rho F.VNil).
+  (* every visible slot is below the next free one, and the slots this code will still claim exist *)
+  Definition slots_ok (k need : nat) (scope : list nat) (s : mstate) : Prop :=
+    Forall (fun sl => sl < k) scope /\ k + need <= length (globals s).
 
-  Lemma vm_inv_globals_ok rho room s : vm_inv rho room s -> globals_ok s rho.
+  Lemma vm_inv_globals_at rho scope s : vm_inv rho scope s -> globals_at s (P.slot_of scope) rho.
   Proof.
-    intros [_ H] i v Hi. assert (Hlt : i < length rho) by (apply nth_error_Some; congruence).
-    rewrite (H i Hlt). rewrite (nth_error_nth rho i F.VNil Hi). reflexivity.
+    intros [_ [_ H]] i v Hi. assert (Hlt : i < length rho) by (apply nth_error_Some; congruence).
+    unfold P.slot_of. rewrite (H i Hlt). rewrite (nth_error_nth rho i F.VNil Hi). reflexivity.
   Qed.
 
-  Lemma vm_inv_decl rho room s v : vm_inv rho (S room) s ->
-    vm_inv (rho ++ [v]) room (upd_globals s (lset (globals s) (length rho) (inj v))).
+  Lemma vm_inv_decl rho scope s v k : vm_inv rho scope s -> slots_ok k 1 scope s ->
+    vm_inv (rho ++ [v]) (scope ++ [k]) (upd_globals s (lset (globals s) k (inj v))).
   Proof.
-    intros [Hl H]. unfold vm_inv. cbn [globals upd_globals]. rewrite length_lset, app_length. cbn [length].
-    split; [lia|]. intros i Hi.
-    destruct (Nat.eq_dec i (length rho)) as [->|Hd].
-    - rewrite nth_lset_same by lia. rewrite app_nth2 by lia. rewrite Nat.sub_diag. reflexivity.
-    - rewrite nth_lset_other by lia. rewrite app_nth1 by lia. apply H. lia.
+    intros [Hl [Hnd H]] [Hf Hk]. unfold vm_inv. cbn [globals upd_globals].
+    assert (Hnotin : ~ In k scope) by (intros Hin; pose proof (proj1 (Forall_forall _ _) Hf k Hin) as H0; cbn in H0; lia).
+    split; [rewrite !app_length; cbn; lia|]. split.
+    - clear H Hl Hk Hf. induction scope as [|x sc IH]; cbn; [constructor; [intros []|constructor]|].
+      inversion Hnd as [|? ? Hx Hsc]; subst. constructor.
+      + intros Hin. apply in_app_or in Hin. destruct Hin as [Hin|[->|[]]]; [exact (Hx Hin)|apply Hnotin; left; reflexivity].
+      + apply IH; [exact Hsc|intros Hin; apply Hnotin; right; exact Hin].
+    - intros i Hi. rewrite app_length in Hi. cbn in Hi.
+      destruct (Nat.eq_dec i (length rho)) as [->|Hd].
+      + assert (E1 : nth (length rho) (scope ++ [k]) 0 = k) by (rewrite <- Hl, app_nth2 by lia; rewrite Nat.sub_diag; reflexivity).
+        assert (E2 : nth (length rho) (rho ++ [v]) F.VNil = v) by (rewrite app_nth2 by lia; rewrite Nat.sub_diag; reflexivity).
+        rewrite E1, E2. apply nth_lset_same. lia.
+      + assert (Hi' : i < length rho) by lia.
+        assert (E1 : nth i (scope ++ [k]) 0 = nth i scope 0) by (apply app_nth1; lia).
+        assert (E2 : nth i (rho ++ [v]) F.VNil = nth i rho F.VNil) by (apply app_nth1; exact Hi').
+        rewrite E1, E2. rewrite nth_lset_other; [exact (H i Hi')|].
+        intros E. apply Hnotin. rewrite E. apply nth_In. lia.
   Qed.
 
-  Lemma vm_inv_set rho room s i v : vm_inv rho room s -> i < length rho ->
-    vm_inv (P.set_nth i v rho) room (upd_globals s (lset (globals s) i (inj v))).
+  Lemma vm_inv_set rho scope s i v : vm_inv rho scope s -> i < length rho ->
+    vm_inv (P.set_nth i v rho) scope (upd_globals s (lset (globals s) (P.slot_of scope i) (inj v))).
   Proof.
-    intros [Hl H] Hi. unfold vm_inv. cbn [globals upd_globals]. rewrite length_lset, PF.set_nth_length.
-    split; [exact Hl|]. intros j Hj.
+    intros [Hl [Hnd H]] Hi. unfold vm_inv, P.slot_of. cbn [globals upd_globals]. rewrite PF.set_nth_length.
+    split; [exact Hl|]. split; [exact Hnd|]. intros j Hj.
     destruct (Nat.eq_dec j i) as [->|Hd].
-    - rewrite nth_lset_same by lia. rewrite PF.nth_set_nth_same by lia. reflexivity.
-    - rewrite nth_lset_other by lia. rewrite PF.nth_set_nth_other by lia. apply H. exact Hj.
+    - rewrite PF.nth_set_nth_same by lia. rewrite nth_lset_same; [reflexivity|].
+      (* the slot exists: it holds a value that is not the unset marker *)
+      destruct (Nat.lt_ge_cases (nth i scope 0) (length (globals s))) as [Hlt|Hge]; [exact Hlt|].
+      pose proof (H i Hi) as H0. rewrite nth_overflow in H0 by exact Hge. destruct (nth i rho F.VNil); discriminate.
+    - rewrite PF.nth_set_nth_other by lia. rewrite nth_lset_other; [exact (H j Hj)|].
+      intros E. apply Hd. symmetry. apply (proj1 (NoDup_nth scope 0) Hnd i j); [lia|lia|exact E].
   Qed.
+
+  (* at the end of a block its variables are gone *)
+  Lemma vm_inv_firstn rho scope x s n : vm_inv rho (scope ++ x) s -> length scope = n -> n <= length rho ->
+    vm_inv (firstn n rho) scope s.
+  Proof.
+    intros [Hl [Hnd H]] Hn Hle. split; [rewrite firstn_length; lia|]. split.
+    - clear H Hl Hn Hle. induction scope as [|y sc IH]; [constructor|]. cbn in Hnd. inversion Hnd as [|? ? Hy Hsc]; subst. constructor.
+      + intros Hin. apply Hy. apply in_or_app. left. exact Hin.
+      + exact (IH Hsc).
+    - intros i Hi. rewrite firstn_length in Hi. assert (Hi' : i < n) by lia.
+      pose proof (H i ltac:(lia)) as Hv. rewrite app_nth1 in Hv by lia.
+      assert (E : nth i (firstn n rho) F.VNil = nth i rho F.VNil).
+      { clear -Hi'. revert n i Hi'. induction rho as [|y r IH]; intros [|n] [|i] H; cbn; try reflexivity; try lia. apply IH. lia. }
+      rewrite E. exact Hv.
+  Qed.
+  Lemma slots_ok_less k need need' scope s : slots_ok k need scope s -> need' <= need -> slots_ok k need' scope s.
+  Proof. intros [Hf Hk] H. split; [exact Hf|lia]. Qed.
+  Lemma slots_ok_next k need scope s st : slots_ok k (P.nd st + need) scope s ->
+    slots_ok (k + P.nd st) need (P.next_scope k scope st) s.
+  Proof.
+    intros [Hf Hk]. split; [|lia].
+    assert (H0 : Forall (fun sl => sl < k + P.nd st) scope) by (eapply Forall_impl; [|exact Hf]; cbn; intros; lia).
+    destruct st; cbn [P.next_scope P.nd] in *; try exact H0.
+    apply Forall_app. split; [exact H0|constructor; [lia|constructor]].
+  Qed.
+  Lemma slots_ok_shift k d need scope s : slots_ok k (d + need) scope s -> slots_ok (k + d) need scope s.
+  Proof. intros [Hf Hk]. split; [eapply Forall_impl; [|exact Hf]; cbn; intros; lia|lia]. Qed.
+  Lemma slots_ok_state k need scope s s' : slots_ok k need scope s -> length (globals s') = length (globals s) -> slots_ok k need scope s'.
+  Proof. intros [Hf Hk] E. split; [exact Hf|rewrite E; exact Hk]. Qed.
   (* ---------------------------------------------------------------- positions *)
   Lemma at0 (A : Type) (l1 : list A) x l2 : nth_error (l1 ++ x :: l2) (length l1) = Some x.
   Proof. induction l1; cbn; auto. Qed.
@@ -89,25 +138,27 @@ Section VarVM.
   Qed.
 
   (* ---------------------------------------------------------------- evaluate, then store into a global slot *)
-  Lemma vm_store rho room s e base pre post slot :
-    vm_inv rho room s -> F.wf (length rho) e = true ->
-    instr = pre ++ fst (F.cexp base e) ++ [opStoreGlobal; N.of_nat slot] ++ post ->
-    (forall i kk, nth_error (snd (F.cexp base e)) i = Some kk -> nth (base + i) (code_consts c) (KInt 0) = kk) ->
+  Notation cexp_in scope := (F.cexp_at (P.slot_of scope)).
+
+  Lemma vm_store rho scope s e base pre post slot :
+    vm_inv rho scope s -> F.wf (length rho) e = true ->
+    instr = pre ++ fst (cexp_in scope base e) ++ [opStoreGlobal; N.of_nat slot] ++ post ->
+    (forall i kk, nth_error (snd (cexp_in scope base e)) i = Some kk -> nth (base + i) (code_consts c) (KInt 0) = kk) ->
     below + F.need e <= MAXSTACK ->
     exists k, forall f,
       match F.sev rho e with
       | inl v => runs (k + f) (length pre) [] s =
-                 runs f (length pre + length (fst (F.cexp base e) ++ [opStoreGlobal; N.of_nat slot])) []
+                 runs f (length pre + length (fst (cexp_in scope base e) ++ [opStoreGlobal; N.of_nat slot])) []
                       (upd_globals s (lset (globals s) slot (inj v)))
       | inr x => runs (k + f) (length pre) [] s = (RErr (cls x) s, defers)
       end.
   Proof.
-    intros Hinv Hwf Hi Hc Hn. pose proof (vm_inv_globals_ok rho room s Hinv) as Hg.
-    destruct (vm_scalar tabs c below frames free defers is_main s rho Hg e base pre _ [] Hwf Hi Hc ltac:(cbn [length]; lia)) as [n Hr].
+    intros Hinv Hwf Hi Hc Hn. pose proof (vm_inv_globals_at rho scope s Hinv) as Hg.
+    destruct (vm_scalar_at tabs c below frames free defers is_main s (P.slot_of scope) rho Hg e base pre _ [] Hwf Hi Hc ltac:(cbn [length]; lia)) as [n Hr].
     unfold outcome_of in Hr.
     destruct (F.sev rho e) as [v|x].
     - exists (n + 1). intros f. rewrite <- Nat.add_assoc, Hr. cbn [Nat.add].
-      set (ce := fst (F.cexp base e)) in *.
+      set (ce := fst (cexp_in scope base e)) in *.
       assert (Hx : instr = (pre ++ ce) ++ opStoreGlobal :: N.of_nat slot :: post) by (rewrite Hi, <- !app_assoc; reflexivity).
       rewrite (step_store f (length pre + length ce) [] (inj v) s) by (rewrite Hx, <- app_length; apply at0).
       assert (E : nth (length pre + length ce + 1) instr 0%N = N.of_nat slot) by (rewrite Hx, <- app_length; apply at1).
@@ -117,20 +168,20 @@ Section VarVM.
   Qed.
 
   (* ---------------------------------------------------------------- x op= e  and  x++ / x-- *)
-  Lemma vm_binstore rho room s i o (a b : F.sval) base_pos :
-    (* at base_pos: the operator's two slots, then StoreGlobal i; on the stack b above a *)
-    vm_inv rho room s -> i < length rho -> is_cmp o = false ->
+  Lemma vm_binstore s sl o (a b : F.sval) base_pos :
+    (* at base_pos: the operator's two slots, then StoreGlobal sl; on the stack b above a *)
+    is_cmp o = false ->
     forall x y post0 pre0, F.op_code o = [x; y] ->
-    instr = pre0 ++ [x; y] ++ [opStoreGlobal; N.of_nat i] ++ post0 -> base_pos = length pre0 ->
+    instr = pre0 ++ [x; y] ++ [opStoreGlobal; N.of_nat sl] ++ post0 -> base_pos = length pre0 ->
     below + 2 <= MAXSTACK ->
     forall f,
       runs (S (S f)) base_pos [inj b; inj a] s =
       match F.sbin o a b with
-      | inl rv => runs f (base_pos + 4) [] (upd_globals s (lset (globals s) i (inj rv)))
+      | inl rv => runs f (base_pos + 4) [] (upd_globals s (lset (globals s) sl (inj rv)))
       | inr e => (RErr (cls e) s, defers)
       end.
   Proof.
-    intros Hinv Hi Hc x y post0 pre0 Ho Hins -> Hb f.
+    intros Hc x y post0 pre0 Ho Hins -> Hb f.
     assert (Hx : x = opBinaryOp) by (destruct o; try discriminate; cbn in Ho; congruence).
     subst x.
     rewrite (step_binop tabs c below frames free defers is_main s (S f) (length pre0) [] (inj a) (inj b));
@@ -138,89 +189,91 @@ Section VarVM.
     assert (E : nth (length pre0 + 1) instr 0%N = y) by (rewrite Hins; apply at1).
     rewrite E, (binop_inj s o a b _ y Hc Ho).
     destruct (F.sbin o a b) as [rv|e]; [|reflexivity].
-    assert (Hx : instr = (pre0 ++ [opBinaryOp; y]) ++ opStoreGlobal :: N.of_nat i :: post0) by (rewrite Hins, <- !app_assoc; reflexivity).
+    assert (Hx : instr = (pre0 ++ [opBinaryOp; y]) ++ opStoreGlobal :: N.of_nat sl :: post0) by (rewrite Hins, <- !app_assoc; reflexivity).
     assert (Hl : length (pre0 ++ [opBinaryOp; y]) = length pre0 + 2) by (rewrite app_length; reflexivity).
     rewrite (step_store f (length pre0 + 2) [] (inj rv) s) by (rewrite Hx, <- Hl; apply at0).
-    assert (E2 : nth (length pre0 + 2 + 1) instr 0%N = N.of_nat i) by (rewrite Hx, <- Hl; apply at1).
+    assert (E2 : nth (length pre0 + 2 + 1) instr 0%N = N.of_nat sl) by (rewrite Hx, <- Hl; apply at1).
     rewrite E2, Nat2N.id. replace (length pre0 + 2 + 2) with (length pre0 + 4) by lia. reflexivity.
   Qed.
 
-  Lemma vm_setop rho room s i o e base pre post :
-    vm_inv rho room s -> i < length rho -> P.is_compound o = true -> F.wf (length rho) e = true ->
-    instr = pre ++ ([opLoadGlobal; N.of_nat i] ++ fst (F.cexp base e) ++ F.op_code o ++ [opStoreGlobal; N.of_nat i]) ++ post ->
-    (forall j kk, nth_error (snd (F.cexp base e)) j = Some kk -> nth (base + j) (code_consts c) (KInt 0) = kk) ->
+  Lemma vm_setop rho scope s i o e base pre post :
+    let sl := P.slot_of scope i in
+    vm_inv rho scope s -> i < length rho -> P.is_compound o = true -> F.wf (length rho) e = true ->
+    instr = pre ++ ([opLoadGlobal; N.of_nat sl] ++ fst (cexp_in scope base e) ++ F.op_code o ++ [opStoreGlobal; N.of_nat sl]) ++ post ->
+    (forall j kk, nth_error (snd (cexp_in scope base e)) j = Some kk -> nth (base + j) (code_consts c) (KInt 0) = kk) ->
     below + S (F.need e) <= MAXSTACK ->
     exists k, forall f,
       match F.sev rho e with
       | inl v =>
           match F.sbin o (nth i rho F.VNil) v with
           | inl rv => runs (k + f) (length pre) [] s =
-                      runs f (length pre + length ([opLoadGlobal; N.of_nat i] ++ fst (F.cexp base e) ++ F.op_code o ++ [opStoreGlobal; N.of_nat i])) []
-                           (upd_globals s (lset (globals s) i (inj rv)))
+                      runs f (length pre + length ([opLoadGlobal; N.of_nat sl] ++ fst (cexp_in scope base e) ++ F.op_code o ++ [opStoreGlobal; N.of_nat sl])) []
+                           (upd_globals s (lset (globals s) sl (inj rv)))
           | inr x => runs (k + f) (length pre) [] s = (RErr (cls x) s, defers)
           end
       | inr x => runs (k + f) (length pre) [] s = (RErr (cls x) s, defers)
       end.
   Proof.
-    intros Hinv Hi Ho Hwf Hins Hc Hn. pose proof (vm_inv_globals_ok rho room s Hinv) as Hg.
+    intros sl Hinv Hi Ho Hwf Hins Hc Hn. pose proof (vm_inv_globals_at rho scope s Hinv) as Hg.
     assert (Hnc : is_cmp o = false) by (destruct o; try discriminate; reflexivity).
     destruct (op_code_shape o) as [x [y [Hoc _]]].
-    set (ce := fst (F.cexp base e)) in *.
+    set (ce := fst (cexp_in scope base e)) in *.
     set (old := nth i rho F.VNil).
-    assert (Hold : nth i (globals s) VGoNil = inj old) by (destruct Hinv as [_ H]; exact (H i Hi)).
-    set (pre1 := pre ++ [opLoadGlobal; N.of_nat i]).
+    assert (Hold : nth sl (globals s) VGoNil = inj old) by (destruct Hinv as [_ [_ H]]; exact (H i Hi)).
+    set (pre1 := pre ++ [opLoadGlobal; N.of_nat sl]).
     assert (Hl1 : length pre1 = length pre + 2) by (unfold pre1; rewrite app_length; reflexivity).
-    assert (Hi1 : instr = pre1 ++ ce ++ (F.op_code o ++ [opStoreGlobal; N.of_nat i] ++ post))
+    assert (Hi1 : instr = pre1 ++ ce ++ (F.op_code o ++ [opStoreGlobal; N.of_nat sl] ++ post))
       by (rewrite Hins; unfold pre1; rewrite <- !app_assoc; reflexivity).
-    destruct (vm_scalar tabs c below frames free defers is_main s rho Hg e base pre1 _ [inj old] Hwf Hi1 Hc ltac:(cbn [length]; lia)) as [n Hr].
+    destruct (vm_scalar_at tabs c below frames free defers is_main s (P.slot_of scope) rho Hg e base pre1 _ [inj old] Hwf Hi1 Hc ltac:(cbn [length]; lia)) as [n Hr].
     unfold outcome_of in Hr. fold ce in Hr.
     assert (Hload : forall f, runs (S f) (length pre) [] s = runs f (length pre1) [inj old] s).
     { intros f. rewrite (step_loadglobal tabs c below frames free defers is_main s f (length pre) [] (inj old));
         [rewrite Hl1; reflexivity|rewrite Hins; apply at0|cbn [length]; lia| |apply inj_not_gonil].
-      assert (E : nth (length pre + 1) instr 0%N = N.of_nat i) by (rewrite Hins; apply at1).
+      assert (E : nth (length pre + 1) instr 0%N = N.of_nat sl) by (rewrite Hins; apply at1).
       rewrite E, Nat2N.id. exact Hold. }
     destruct (F.sev rho e) as [v|xx].
     - exists (1 + (n + 2)). intros f.
       replace (1 + (n + 2) + f) with (S (n + (S (S f)))) by lia. rewrite Hload, Hr.
-      assert (Hi2 : instr = (pre1 ++ ce) ++ [x; y] ++ [opStoreGlobal; N.of_nat i] ++ post)
+      assert (Hi2 : instr = (pre1 ++ ce) ++ [x; y] ++ [opStoreGlobal; N.of_nat sl] ++ post)
         by (rewrite Hi1, Hoc, <- !app_assoc; reflexivity).
-      rewrite (vm_binstore rho room s i o old v (length pre1 + length ce) Hinv Hi Hnc x y post (pre1 ++ ce) Hoc Hi2
+      rewrite (vm_binstore s sl o old v (length pre1 + length ce) Hnc x y post (pre1 ++ ce) Hoc Hi2
                  ltac:(rewrite app_length; reflexivity) ltac:(pose proof (PF.need_pos e); lia) f).
       destruct (F.sbin o old v) as [rv|xx]; [|reflexivity].
       f_equal. rewrite Hl1, !app_length, Hoc. cbn [length]. fold ce. lia.
     - exists (1 + n). intros f. replace (1 + n + f) with (S (n + f)) by lia. rewrite Hload. exact (Hr f).
   Qed.
 
-  Lemma vm_incdec rho room s i (up : bool) base pre post :
-    vm_inv rho room s -> i < length rho ->
-    instr = pre ++ [opLoadGlobal; N.of_nat i; opLoadConst; N.of_nat base; opBinaryOp; bAdd; opStoreGlobal; N.of_nat i] ++ post ->
+  Lemma vm_incdec rho scope s i (up : bool) base pre post :
+    let sl := P.slot_of scope i in
+    vm_inv rho scope s -> i < length rho ->
+    instr = pre ++ [opLoadGlobal; N.of_nat sl; opLoadConst; N.of_nat base; opBinaryOp; bAdd; opStoreGlobal; N.of_nat sl] ++ post ->
     nth base (code_consts c) (KInt 0) = KInt (if up then 1 else -1) ->
     below + 2 <= MAXSTACK ->
     exists k, forall f,
       match F.sbin F.BAdd (nth i rho F.VNil) (F.VInt (if up then 1 else -1)) with
-      | inl rv => runs (k + f) (length pre) [] s = runs f (length pre + 8) [] (upd_globals s (lset (globals s) i (inj rv)))
+      | inl rv => runs (k + f) (length pre) [] s = runs f (length pre + 8) [] (upd_globals s (lset (globals s) sl (inj rv)))
       | inr x => runs (k + f) (length pre) [] s = (RErr (cls x) s, defers)
       end.
   Proof.
-    intros Hinv Hi Hins Hk Hn.
+    intros sl Hinv Hi Hins Hk Hn.
     set (old := nth i rho F.VNil).
-    assert (Hold : nth i (globals s) VGoNil = inj old) by (destruct Hinv as [_ H]; exact (H i Hi)).
+    assert (Hold : nth sl (globals s) VGoNil = inj old) by (destruct Hinv as [_ [_ H]]; exact (H i Hi)).
     exists 4. intros f. cbn [Nat.add].
     rewrite (step_loadglobal tabs c below frames free defers is_main s (S (S (S f))) (length pre) [] (inj old));
       [|rewrite Hins; apply at0|cbn [length]; lia| |apply inj_not_gonil].
-    2:{ assert (E : nth (length pre + 1) instr 0%N = N.of_nat i) by (rewrite Hins; apply at1). rewrite E, Nat2N.id. exact Hold. }
-    assert (Hi1 : instr = (pre ++ [opLoadGlobal; N.of_nat i]) ++ opLoadConst :: N.of_nat base :: ([opBinaryOp; bAdd; opStoreGlobal; N.of_nat i] ++ post))
+    2:{ assert (E : nth (length pre + 1) instr 0%N = N.of_nat sl) by (rewrite Hins; apply at1). rewrite E, Nat2N.id. exact Hold. }
+    assert (Hi1 : instr = (pre ++ [opLoadGlobal; N.of_nat sl]) ++ opLoadConst :: N.of_nat base :: ([opBinaryOp; bAdd; opStoreGlobal; N.of_nat sl] ++ post))
       by (rewrite Hins, <- !app_assoc; reflexivity).
-    assert (Hl1 : length (pre ++ [opLoadGlobal; N.of_nat i]) = length pre + 2) by (rewrite app_length; reflexivity).
+    assert (Hl1 : length (pre ++ [opLoadGlobal; N.of_nat sl]) = length pre + 2) by (rewrite app_length; reflexivity).
     rewrite (step_const tabs c below frames free defers is_main s (S (S f)) (length pre + 2) [inj old]);
       [|rewrite Hi1, <- Hl1; apply at0|cbn [length]; lia].
     assert (E : nth (length pre + 2 + 1) instr 0%N = N.of_nat base) by (rewrite Hi1, <- Hl1; apply at1).
     rewrite E, Nat2N.id, Hk.
-    assert (Hi2 : instr = (pre ++ [opLoadGlobal; N.of_nat i; opLoadConst; N.of_nat base]) ++ [opBinaryOp; bAdd] ++ [opStoreGlobal; N.of_nat i] ++ post)
+    assert (Hi2 : instr = (pre ++ [opLoadGlobal; N.of_nat sl; opLoadConst; N.of_nat base]) ++ [opBinaryOp; bAdd] ++ [opStoreGlobal; N.of_nat sl] ++ post)
       by (rewrite Hins, <- !app_assoc; reflexivity).
     change (const_value (KInt (if up then 1 else -1))) with (inj (F.VInt (if up then 1 else -1))).
-    rewrite (vm_binstore rho room s i F.BAdd old (F.VInt (if up then 1 else -1)) (length pre + 2 + 2) Hinv Hi eq_refl
-               opBinaryOp bAdd post (pre ++ [opLoadGlobal; N.of_nat i; opLoadConst; N.of_nat base]) eq_refl Hi2
+    rewrite (vm_binstore s sl F.BAdd old (F.VInt (if up then 1 else -1)) (length pre + 2 + 2) eq_refl
+               opBinaryOp bAdd post (pre ++ [opLoadGlobal; N.of_nat sl; opLoadConst; N.of_nat base]) eq_refl Hi2
                ltac:(rewrite app_length; cbn [length]; lia) Hn f).
     destruct (F.sbin F.BAdd old (F.VInt (if up then 1 else -1))) as [rv|xx]; [|reflexivity].
     f_equal. lia.
@@ -230,82 +283,105 @@ Section VarVM.
   Definition consts_at (base : nat) (ks : list konst) : Prop :=
     forall i kk, nth_error ks i = Some kk -> nth (base + i) (code_consts c) (KInt 0) = kk.
 
+  (* the state s' holds the variables rho' in the slots [scope], and has as many slots as s *)
+  Definition good (scope : list nat) (s : mstate) (rho' : list F.sval) (s' : mstate) : Prop :=
+    vm_inv rho' scope s' /\ length (globals s') = length (globals s).
+  Definition good_ext (scope : list nat) (s : mstate) (rho' : list F.sval) (s' : mstate) : Prop :=
+    exists x, good (scope ++ x) s rho' s'.
+
   (* how the machine goes on after a statement that ran as r: after its code with the given stack; or at the break /
-     continue target of the enclosing loop (L = the loop's first instruction, bt / ct relative to it) with the stack empty *)
-  Definition after (r : (list F.sval * F.sval) + P.stop) (room : nat) (s : mstate) (start stop L bt ct : nat)
-             (stack : F.sval -> list value) : Prop :=
+     continue target of the enclosing loop (L = the loop's first instruction, bt / ct relative to it) with the stack
+     empty.  okn / oks: what holds of the state after a normal end / after a break or continue *)
+  Definition after (r : (list F.sval * F.sval) + P.stop) (okn oks : list F.sval -> mstate -> Prop) (s : mstate)
+             (start stop L bt ct : nat) (stack : F.sval -> list value) : Prop :=
     exists k s',
       match r with
       | inr (P.StErr x) => forall f, runs (k + f) start [] s = (RErr (cls x) s', defers)
-      | inl (rho', v) => vm_inv rho' room s' /\ forall f, runs (k + f) start [] s = runs f stop (stack v) s'
-      | inr (P.StBrk rho') => vm_inv rho' room s' /\ forall f, runs (k + f) start [] s = runs f (L + bt) [] s'
-      | inr (P.StCont rho') => vm_inv rho' room s' /\ forall f, runs (k + f) start [] s = runs f (L + ct) [] s'
+      | inl (rho', v) => okn rho' s' /\ forall f, runs (k + f) start [] s = runs f stop (stack v) s'
+      | inr (P.StBrk rho') => oks rho' s' /\ forall f, runs (k + f) start [] s = runs f (L + bt) [] s'
+      | inr (P.StCont rho') => oks rho' s' /\ forall f, runs (k + f) start [] s = runs f (L + ct) [] s'
       end.
-  Lemma vm_inv_weaken rho r1 r2 s : vm_inv rho r1 s -> r2 <= r1 -> vm_inv rho r2 s.
-  Proof. intros [Hl H] Hr. split; [lia|exact H]. Qed.
-  Lemma after_stop x room room' s start stop stop' L bt ct st st' : room' <= room ->
-    after (inr x) room s start stop L bt ct st -> after (inr x) room' s start stop' L bt ct st'.
+  Lemma after_stop x (okn okn' oks oks' : list F.sval -> mstate -> Prop) s start stop stop' L bt ct st st' :
+    (forall rho' s', oks rho' s' -> oks' rho' s') ->
+    after (inr x) okn oks s start stop L bt ct st -> after (inr x) okn' oks' s start stop' L bt ct st'.
   Proof.
     intros Hr [k [s' H]]. exists k, s'. destruct x as [x|rho'|rho']; [exact H| |];
-      (destruct H as [Hi H]; split; [exact (vm_inv_weaken _ _ _ _ Hi Hr)|exact H]).
+      (destruct H as [Hi H]; split; [exact (Hr _ _ Hi)|exact H]).
   Qed.
+  Lemma good_good_ext scope s rho' s' : good scope s rho' s' -> good_ext scope s rho' s'.
+  Proof. intros H. exists []. rewrite app_nil_r. exact H. Qed.
 
   (* the code lies inside the loop, before the continue target, which is not after the break target *)
   Definition inside (lp : bool) (pre : list N) (len L bt ct : nat) : Prop :=
     lp = true -> L <= length pre /\ length pre + len <= L + ct /\ ct <= bt.
 
+  Fixpoint scope_after (k : nat) (scope : list nat) (l : list P.stmt) : list nat :=
+    match l with [] => scope | s :: r => scope_after (k + P.nd s) (P.next_scope k scope s) r end.
+  Lemma next_scope_ext k scope st : exists x, P.next_scope k scope st = scope ++ x.
+  Proof. destruct st; cbn [P.next_scope]; try (exists []; rewrite app_nil_r; reflexivity). exists [k]. reflexivity. Qed.
+  Lemma scope_after_ext : forall l k scope, exists x, scope_after k scope l = scope ++ x.
+  Proof.
+    induction l as [|st r IH]; intros k scope; [exists []; rewrite app_nil_r; reflexivity|].
+    cbn [scope_after]. destruct (IH (k + P.nd st) (P.next_scope k scope st)) as [x Hx].
+    destruct (next_scope_ext k scope st) as [y Hy]. exists (y ++ x). rewrite Hx, Hy, app_assoc. reflexivity.
+  Qed.
+
   (* what holds of one statement run with source fuel n *)
   Definition stmt_vm (n : nat) : Prop :=
-    forall st rho room s base pre post top lp L bt ct r,
-      vm_inv rho (P.ndecls [st] + room) s -> P.wf_stmt top lp (length rho) st = true ->
-      instr = pre ++ npatch (length pre - L) bt ct (fst (P.stmt_code (length rho) base st)) ++ post ->
-      consts_at base (snd (P.stmt_code (length rho) base st)) ->
+    forall st rho scope k s base pre post lp L bt ct r,
+      vm_inv rho scope s -> slots_ok k (P.nd st) scope s -> P.wf_stmt lp (length rho) st = true ->
+      instr = pre ++ npatch (length pre - L) bt ct (fst (P.stmt_code k scope base st)) ++ post ->
+      consts_at base (snd (P.stmt_code k scope base st)) ->
       below + P.sneed st <= MAXSTACK ->
-      inside lp pre (length (fst (P.stmt_code (length rho) base st))) L bt ct ->
+      inside lp pre (length (fst (P.stmt_code k scope base st))) L bt ct ->
       P.run_stmt n rho st = Some r ->
-      after r room s (length pre) (length pre + length (fst (P.stmt_code (length rho) base st))) L bt ct
+      after r (good (P.next_scope k scope st) s) (good scope s) s
+            (length pre) (length pre + length (fst (P.stmt_code k scope base st))) L bt ct
             (fun v => if P.is_expr_stmt st then [inj v] else []).
 
-  Lemma ndecls_split st r : P.ndecls (st :: r) = P.ndecls [st] + P.ndecls r.
-  Proof. destruct st; reflexivity. Qed.
+  Lemma good_trans scope s s1 rho' s' : length (globals s1) = length (globals s) -> good scope s1 rho' s' -> good scope s rho' s'.
+  Proof. intros E [H1 H2]. split; [exact H1|congruence]. Qed.
 
-  Lemma vm_list n : stmt_vm n -> forall l rho room s base pre post last top lp L bt ct r,
-    l <> [] -> vm_inv rho (P.ndecls l + room) s -> P.wf_stmts top lp (length rho) l = true ->
-    instr = pre ++ npatch (length pre - L) bt ct (fst (P.scode (length rho) base l)) ++ post ->
-    consts_at base (snd (P.scode (length rho) base l)) ->
+  Lemma vm_list n : stmt_vm n -> forall l rho scope k s base pre post last lp L bt ct r,
+    l <> [] -> vm_inv rho scope s -> slots_ok k (P.ndecls l) scope s -> P.wf_stmts lp (length rho) l = true ->
+    instr = pre ++ npatch (length pre - L) bt ct (fst (P.scode k scope base l)) ++ post ->
+    consts_at base (snd (P.scode k scope base l)) ->
     below + P.max_need l <= MAXSTACK ->
-    inside lp pre (length (fst (P.scode (length rho) base l))) L bt ct ->
+    inside lp pre (length (fst (P.scode k scope base l))) L bt ct ->
     P.run_stmts n rho l last = Some r ->
-    after r room s (length pre) (length pre + length (fst (P.scode (length rho) base l))) L bt ct (fun v => [inj v]).
+    after r (good (scope_after k scope l) s) (good_ext scope s) s
+          (length pre) (length pre + length (fst (P.scode k scope base l))) L bt ct (fun v => [inj v]).
   Proof.
-    intros Hst. induction l as [|st r0 IH]; intros rho room s base pre post last top lp L bt ct r Hne Hinv Hwf Hi Hc Hn Hin Hr; [contradiction|].
+    intros Hst. induction l as [|st r0 IH]; intros rho scope k s base pre post last lp L bt ct r Hne Hinv Hsl Hwf Hi Hc Hn Hin Hr; [contradiction|].
     rewrite PF.wf_stmts_cons in Hwf. apply andb_true_iff in Hwf. destruct Hwf as [Hws Hwr].
     pose proof (PF.sneed_pos st) as Hpos.
     rewrite PF.max_need_cons in Hn. rewrite PF.run_stmts_cons in Hr.
-    rewrite ndecls_split, <- Nat.add_assoc in Hinv.
+    rewrite PF.ndecls_cons in Hsl.
+    assert (Hsl0 : slots_ok k (P.nd st) scope s) by (apply (slots_ok_less _ _ _ _ _ Hsl); lia).
+    cbn [scope_after].
     destruct r0 as [|st2 r2].
     - (* the last statement *)
-      rewrite PF.scode_single in Hi, Hc, Hin |- *.
-      destruct (P.stmt_code (length rho) base st) as [cc ks] eqn:Es. cbn [fst snd] in *.
+      rewrite PF.scode_single in Hi, Hc, Hin |- *. cbn [scope_after].
+      destruct (P.stmt_code k scope base st) as [cc ks] eqn:Es. cbn [fst snd] in *.
       set (tail := if P.is_expr_stmt st then [] else I [opNil]) in *.
       rewrite npatch_app in Hi.
       assert (Htl : npatch (length pre - L + length cc) bt ct tail = if P.is_expr_stmt st then [] else [opNil])
         by (unfold tail; destruct (P.is_expr_stmt st); [reflexivity|apply npatch_I]).
       rewrite Htl in Hi.
-      assert (Hi' : instr = pre ++ npatch (length pre - L) bt ct (fst (P.stmt_code (length rho) base st)) ++
+      assert (Hi' : instr = pre ++ npatch (length pre - L) bt ct (fst (P.stmt_code k scope base st)) ++
                             ((if P.is_expr_stmt st then [] else [opNil]) ++ post))
         by (rewrite Es; cbn [fst]; rewrite Hi, <- !app_assoc; reflexivity).
-      assert (Hc' : consts_at base (snd (P.stmt_code (length rho) base st))) by (rewrite Es; exact Hc).
-      assert (Hin' : inside lp pre (length (fst (P.stmt_code (length rho) base st))) L bt ct).
+      assert (Hc' : consts_at base (snd (P.stmt_code k scope base st))) by (rewrite Es; exact Hc).
+      assert (Hin' : inside lp pre (length (fst (P.stmt_code k scope base st))) L bt ct).
       { rewrite Es. cbn [fst]. intros Hl. destruct (Hin Hl) as [H1 [H2 H3]]. rewrite app_length in H2. repeat split; lia. }
       destruct (P.run_stmt n rho st) as [[[rho1 v1]|x]|] eqn:Er; [| |discriminate].
-      + destruct (Hst st rho (P.ndecls [] + room) s base pre _ top lp L bt ct _ Hinv Hws Hi' Hc' ltac:(lia) Hin' Er) as [k [s1 [Hinv1 Hrun]]].
+      + destruct (Hst st rho scope k s base pre _ lp L bt ct _ Hinv Hsl0 Hws Hi' Hc' ltac:(lia) Hin' Er) as [k1 [s1 [Hinv1 Hrun]]].
         rewrite Es in Hrun. cbn [fst] in Hrun.
         cbn in Hr. inversion Hr; subst r. clear Hr.
         assert (Hlc : length (npatch (length pre - L) bt ct cc) = length cc) by (apply (npatch_length (length pre - L)); reflexivity).
         destruct (P.is_expr_stmt st) eqn:Ex.
-        * exists k, s1. split; [exact Hinv1|]. intros f. rewrite Hrun. unfold tail. rewrite app_nil_r. reflexivity.
-        * exists (k + 1), s1. split; [exact Hinv1|]. intros f. rewrite <- Nat.add_assoc, Hrun. cbn [Nat.add].
+        * exists k1, s1. split; [exact Hinv1|]. intros f. rewrite Hrun. unfold tail. rewrite app_nil_r. reflexivity.
+        * exists (k1 + 1), s1. split; [exact Hinv1|]. intros f. rewrite <- Nat.add_assoc, Hrun. cbn [Nat.add].
           assert (Hx : instr = (pre ++ npatch (length pre - L) bt ct cc) ++ opNil :: post) by (rewrite Hi, <- !app_assoc; reflexivity).
           rewrite (step_push tabs c below frames free defers is_main s1 f (length pre + length cc) [] opNil VNil);
             [|rewrite Hx, <- Hlc, <- app_length; apply at0|auto|cbn [length]; lia].
@@ -313,12 +389,13 @@ Section VarVM.
           replace (length pre + (length cc + 1)) with (S (length pre + length cc)) by lia.
           rewrite (PF.run_stmt_value n rho st rho1 v1 Er Ex). reflexivity.
       + inversion Hr; subst r.
-        exact (after_stop _ (P.ndecls [] + room) room _ _ _ _ _ _ _ _ _ ltac:(cbn; lia) (Hst st rho (P.ndecls [] + room) s base pre _ top lp L bt ct _ Hinv Hws Hi' Hc' ltac:(lia) Hin' Er)).
+        exact (after_stop _ _ _ _ _ _ _ _ _ _ _ _ _ _ (good_good_ext scope s)
+                 (Hst st rho scope k s base pre _ lp L bt ct _ Hinv Hsl0 Hws Hi' Hc' ltac:(lia) Hin' Er)).
     - (* more statements follow *)
       assert (Hr2 : st2 :: r2 <> []) by discriminate.
       rewrite PF.scode_cons2 in Hi, Hc, Hin |- *.
-      destruct (P.stmt_code (length rho) base st) as [cc ks] eqn:Es.
-      destruct (P.scode (P.next_k (length rho) st) (base + length ks) (st2 :: r2)) as [cr kr] eqn:Ep. cbn [fst snd] in *.
+      destruct (P.stmt_code k scope base st) as [cc ks] eqn:Es.
+      destruct (P.scode (k + P.nd st) (P.next_scope k scope st) (base + length ks) (st2 :: r2)) as [cr kr] eqn:Ep. cbn [fst snd] in *.
       set (glue := if P.is_expr_stmt st then I [opPopTop] else []) in *.
       set (pops := if P.is_expr_stmt st then [opPopTop] else []).
       rewrite !npatch_app in Hi.
@@ -328,99 +405,115 @@ Section VarVM.
       assert (Hlg : length glue = length pops) by (unfold glue, pops; destruct (P.is_expr_stmt st); reflexivity).
       set (pc := npatch (length pre - L) bt ct cc) in *.
       assert (Hlc : length pc = length cc) by (apply (npatch_length (length pre - L)); reflexivity).
-      assert (Hi' : instr = pre ++ npatch (length pre - L) bt ct (fst (P.stmt_code (length rho) base st)) ++
+      assert (Hi' : instr = pre ++ npatch (length pre - L) bt ct (fst (P.stmt_code k scope base st)) ++
                             (pops ++ npatch (length pre - L + length cc + length glue) bt ct cr ++ post))
         by (rewrite Es; cbn [fst]; rewrite Hi, <- !app_assoc; reflexivity).
-      assert (Hc' : consts_at base (snd (P.stmt_code (length rho) base st))) by (rewrite Es; exact (consts_l ks kr base Hc)).
-      assert (Hin' : inside lp pre (length (fst (P.stmt_code (length rho) base st))) L bt ct).
+      assert (Hc' : consts_at base (snd (P.stmt_code k scope base st))) by (rewrite Es; exact (consts_l ks kr base Hc)).
+      assert (Hin' : inside lp pre (length (fst (P.stmt_code k scope base st))) L bt ct).
       { rewrite Es. cbn [fst]. intros Hl. destruct (Hin Hl) as [H1 [H2 H3]]. rewrite !app_length in H2. repeat split; lia. }
       destruct (P.run_stmt n rho st) as [[[rho1 v1]|x]|] eqn:Er; [| |discriminate].
       2:{ inversion Hr; subst r.
-          exact (after_stop _ (P.ndecls (st2 :: r2) + room) room _ _ _ _ _ _ _ _ _ ltac:(lia) (Hst st rho _ s base pre _ top lp L bt ct _ Hinv Hws Hi' Hc' ltac:(lia) Hin' Er)). }
-      destruct (Hst st rho _ s base pre _ top lp L bt ct _ Hinv Hws Hi' Hc' ltac:(lia) Hin' Er) as [k [s1 [Hinv1 Hrun]]].
+          exact (after_stop _ _ _ _ _ _ _ _ _ _ _ _ _ _ (good_good_ext scope s)
+                   (Hst st rho scope k s base pre _ lp L bt ct _ Hinv Hsl0 Hws Hi' Hc' ltac:(lia) Hin' Er)). }
+      destruct (Hst st rho scope k s base pre _ lp L bt ct _ Hinv Hsl0 Hws Hi' Hc' ltac:(lia) Hin' Er) as [k1 [s1 [[Hinv1 Hgl1] Hrun]]].
       rewrite Es in Hrun. cbn [fst] in Hrun.
-      pose proof (PF.run_stmt_length n rho st top lp _ Hws Er) as Hlen1. cbn [PF.len_ok] in Hlen1.
+      pose proof (PF.run_stmt_length n rho st _ Er) as Hlen1. cbn [PF.len_ok] in Hlen1.
       set (Q := pre ++ pc ++ pops).
       assert (HQ : length Q = length pre + length cc + length pops) by (unfold Q; rewrite !app_length; lia).
-      rewrite <- Hlen1 in Ep, Hwr.
+      rewrite <- Hlen1 in Hwr.
       assert (HoffQ : forall (HL : lp = true), length Q - L = length pre - L + length cc + length glue).
       { intros HL. destruct (Hin HL) as [H1 _]. rewrite HQ, Hlg. lia. }
       assert (Hcr : npatch (length pre - L + length cc + length glue) bt ct cr = npatch (length Q - L) bt ct cr).
-      { destruct lp eqn:El.
-        - rewrite (HoffQ eq_refl). reflexivity.
-        - (* not inside a loop: no placeholder can occur, the offset is irrelevant *)
-          assert (Hnp : forall o1 o2, npatch o1 bt ct cr = npatch o2 bt ct cr); [|apply Hnp].
-          intros o1 o2.
-          assert (Hno : no_ph cr).
-          { pose proof (scode_no_ph (st2 :: r2) top (length rho1) (base + length ks) Hwr) as H0. rewrite Ep in H0. exact H0. }
-          rewrite !npatch_no_ph by exact Hno. reflexivity. }
-      assert (Hi2 : instr = Q ++ npatch (length Q - L) bt ct (fst (P.scode (length rho1) (base + length ks) (st2 :: r2))) ++ post)
+      { apply (npatch_off lp); [intros HL; symmetry; exact (HoffQ HL)|].
+        intros HL. subst lp.
+        pose proof (scode_no_ph (st2 :: r2) (length rho1) (k + P.nd st) (P.next_scope k scope st) (base + length ks) Hwr) as H0.
+        rewrite Ep in H0. exact H0. }
+      assert (Hi2 : instr = Q ++ npatch (length Q - L) bt ct (fst (P.scode (k + P.nd st) (P.next_scope k scope st) (base + length ks) (st2 :: r2))) ++ post)
         by (rewrite Ep; cbn [fst]; rewrite Hi, Hcr; unfold Q; rewrite <- !app_assoc; reflexivity).
-      assert (Hc2 : consts_at (base + length ks) (snd (P.scode (length rho1) (base + length ks) (st2 :: r2))))
+      assert (Hc2 : consts_at (base + length ks) (snd (P.scode (k + P.nd st) (P.next_scope k scope st) (base + length ks) (st2 :: r2))))
         by (rewrite Ep; exact (consts_r ks kr base Hc)).
-      assert (Hin2 : inside lp Q (length (fst (P.scode (length rho1) (base + length ks) (st2 :: r2)))) L bt ct).
+      assert (Hin2 : inside lp Q (length (fst (P.scode (k + P.nd st) (P.next_scope k scope st) (base + length ks) (st2 :: r2)))) L bt ct).
       { rewrite Ep. cbn [fst]. intros Hl. destruct (Hin Hl) as [H1 [H2 H3]]. rewrite !app_length in H2. rewrite HQ, <- Hlg. repeat split; lia. }
-      destruct (IH rho1 room s1 (base + length ks) Q post v1 top lp L bt ct r Hr2 Hinv1 Hwr Hi2 Hc2 ltac:(lia) Hin2 Hr) as [k2 [s2 Hrun2]].
+      assert (Hsl1 : slots_ok (k + P.nd st) (P.ndecls (st2 :: r2)) (P.next_scope k scope st) s1)
+        by (apply (slots_ok_state _ _ _ s); [apply slots_ok_next; exact Hsl|exact Hgl1]).
+      destruct (IH rho1 (P.next_scope k scope st) (k + P.nd st) s1 (base + length ks) Q post v1 lp L bt ct r Hr2 Hinv1 Hsl1 Hwr Hi2 Hc2 ltac:(lia) Hin2 Hr) as [k2 [s2 Hrun2]].
       rewrite Ep in Hrun2. cbn [fst] in Hrun2.
       assert (Hglue : exists k0, forall f, runs (k0 + f) (length pre) [] s = runs f (length Q) [] s1).
       { unfold pops in *. destruct (P.is_expr_stmt st) eqn:Ex.
-        - exists (k + 1). intros f. rewrite <- Nat.add_assoc, Hrun. cbn [Nat.add].
+        - exists (k1 + 1). intros f. rewrite <- Nat.add_assoc, Hrun. cbn [Nat.add].
           assert (Hx : instr = (pre ++ pc) ++ opPopTop :: (npatch (length pre - L + length cc + length glue) bt ct cr ++ post))
             by (rewrite Hi, <- !app_assoc; reflexivity).
           rewrite (step_pop f (length pre + length cc) [] (inj v1) s1) by (rewrite Hx, <- Hlc, <- app_length; apply at0).
           rewrite HQ. cbn [length]. replace (length pre + length cc + 1) with (S (length pre + length cc)) by lia. reflexivity.
-        - exists k. intros f. rewrite Hrun, HQ. cbn [length]. rewrite Nat.add_0_r. reflexivity. }
+        - exists k1. intros f. rewrite Hrun, HQ. cbn [length]. rewrite Nat.add_0_r. reflexivity. }
       destruct Hglue as [k0 Hk0].
       exists (k0 + k2), s2.
       assert (Hpos2 : length pre + length (cc ++ glue ++ cr) = length Q + length cr)
         by (rewrite HQ, !app_length, Hlg; lia).
+      destruct (next_scope_ext k scope st) as [y Hy].
+      assert (Hext : forall rho' s', good_ext (P.next_scope k scope st) s1 rho' s' -> good_ext scope s rho' s').
+      { intros rho' s' [x Hx]. exists (y ++ x). rewrite app_assoc, <- Hy. exact (good_trans _ _ _ _ _ Hgl1 Hx). }
       destruct r as [[rho2 vv]|[xx|rho2|rho2]].
-      + destruct Hrun2 as [Hinv2 Hrun2]. split; [exact Hinv2|]. intros f.
+      + destruct Hrun2 as [Hinv2 Hrun2]. split; [exact (good_trans _ _ _ _ _ Hgl1 Hinv2)|]. intros f.
         rewrite <- Nat.add_assoc, Hk0, Hrun2, Hpos2. reflexivity.
       + intros f. rewrite <- Nat.add_assoc, Hk0. apply Hrun2.
-      + destruct Hrun2 as [Hinv2 Hrun2]. split; [exact Hinv2|]. intros f. rewrite <- Nat.add_assoc, Hk0. apply Hrun2.
-      + destruct Hrun2 as [Hinv2 Hrun2]. split; [exact Hinv2|]. intros f. rewrite <- Nat.add_assoc, Hk0. apply Hrun2.
+      + destruct Hrun2 as [Hinv2 Hrun2]. split; [exact (Hext _ _ Hinv2)|]. intros f. rewrite <- Nat.add_assoc, Hk0. apply Hrun2.
+      + destruct Hrun2 as [Hinv2 Hrun2]. split; [exact (Hext _ _ Hinv2)|]. intros f. rewrite <- Nat.add_assoc, Hk0. apply Hrun2.
   Qed.
 
-  (* a whole block: Nil for an empty one *)
-  Lemma vm_block n : stmt_vm n -> forall l rho room s base pre post lp L bt ct r,
-    vm_inv rho room s -> P.wf_stmts false lp (length rho) l = true ->
-    instr = pre ++ npatch (length pre - L) bt ct (fst (P.block_code (length rho) base l)) ++ post ->
-    consts_at base (snd (P.block_code (length rho) base l)) ->
+  (* a whole block: Nil for an empty one; at its end the variables it declared are gone (their slots stay behind) *)
+  Lemma good_firstn scope x s (rho rho' : list F.sval) s' : good (scope ++ x) s rho' s' -> length scope = length rho -> length rho <= length rho' ->
+    good scope s (firstn (length rho) rho') s'.
+  Proof. intros [H1 H2] Hl Hle. split; [exact (vm_inv_firstn rho' scope x s' (length rho) H1 Hl Hle)|exact H2]. Qed.
+
+  Lemma vm_block n : stmt_vm n -> forall l rho scope k s base pre post lp L bt ct r,
+    vm_inv rho scope s -> slots_ok k (P.ndecls l) scope s -> P.wf_stmts lp (length rho) l = true ->
+    instr = pre ++ npatch (length pre - L) bt ct (fst (P.block_code k scope base l)) ++ post ->
+    consts_at base (snd (P.block_code k scope base l)) ->
     below + P.max_need l <= MAXSTACK ->
-    inside lp pre (length (fst (P.block_code (length rho) base l))) L bt ct ->
-    P.run_stmts n rho l F.VNil = Some r ->
-    after r room s (length pre) (length pre + length (fst (P.block_code (length rho) base l))) L bt ct (fun v => [inj v]).
+    inside lp pre (length (fst (P.block_code k scope base l))) L bt ct ->
+    PF.run_blk n rho l = Some r ->
+    after r (good scope s) (good scope s) s (length pre) (length pre + length (fst (P.block_code k scope base l))) L bt ct (fun v => [inj v]).
   Proof.
-    intros Hst l rho room s base pre post lp L bt ct r Hinv Hwf Hi Hc Hn Hin Hr. destruct l as [|st r0].
-    - rewrite PF.block_code_nil in *. cbn [fst snd] in *. cbn in Hr. inversion Hr; subst r.
+    intros Hst l rho scope k s base pre post lp L bt ct r Hinv Hsl Hwf Hi Hc Hn Hin Hr. unfold PF.run_blk in Hr. destruct l as [|st r0].
+    - rewrite PF.block_code_nil in *. cbn [fst snd] in *. cbn in Hr. inversion Hr; subst r. rewrite firstn_all.
       rewrite npatch_I in Hi.
-      exists 1, s. split; [exact Hinv|]. intros f. cbn [Nat.add length I map].
+      exists 1, s. split; [split; [exact Hinv|reflexivity]|]. intros f. cbn [Nat.add length I map].
       rewrite (step_push tabs c below frames free defers is_main s f (length pre) [] opNil VNil);
         [rewrite Nat.add_1_r; reflexivity|rewrite Hi; apply at0|auto|pose proof (PF.max_need_pos []); cbn [length]; lia].
     - assert (Hne : st :: r0 <> []) by discriminate.
       rewrite PF.block_code_cons in *.
-      rewrite <- (Nat.add_0_l room) in Hinv. rewrite <- (PF.wf_false_ndecls _ _ _ Hwf) in Hinv.
-      exact (vm_list n Hst (st :: r0) rho room s base pre post F.VNil false lp L bt ct r Hne Hinv Hwf Hi Hc Hn Hin Hr).
+      destruct (P.run_stmts n rho (st :: r0) F.VNil) as [r1|] eqn:Er; [|discriminate]. cbn [option_map] in Hr. inversion Hr; subst r. clear Hr.
+      pose proof (PF.run_stmts_length n (st :: r0) rho F.VNil r1 Er) as Hlen.
+      destruct (vm_list n Hst (st :: r0) rho scope k s base pre post F.VNil lp L bt ct r1 Hne Hinv Hsl Hwf Hi Hc Hn Hin Er) as [k1 [s1 H1]].
+      assert (Hls : length scope = length rho) by (destruct Hinv as [H _]; exact H).
+      exists k1, s1.
+      destruct r1 as [[rho1 v1]|[x|rho1|rho1]]; cbn [P.trunc PF.lens_ok] in *.
+      + destruct H1 as [Hg H1]. split; [|exact H1].
+        destruct (scope_after_ext (st :: r0) k scope) as [x Hx]. rewrite Hx in Hg. exact (good_firstn _ _ _ _ _ _ Hg Hls Hlen).
+      + exact H1.
+      + destruct H1 as [[x Hg] H1]. split; [exact (good_firstn _ _ _ _ _ _ Hg Hls Hlen)|exact H1].
+      + destruct H1 as [[x Hg] H1]. split; [exact (good_firstn _ _ _ _ _ _ Hg Hls Hlen)|exact H1].
   Qed.
 
-  (* the condition loop; kk = number of declared variables (constant while the loop runs).  Its own code carries no
+  (* the condition loop; kk = number of visible variables (the same at the start of every round).  Its own code carries no
      placeholder any more; break and continue of the body end here *)
-  Lemma vm_loop cnd b base pre post kk :
-    instr = pre ++ P.strip (fst (P.stmt_code kk base (P.SWhile cnd b))) ++ post ->
-    consts_at base (snd (P.stmt_code kk base (P.SWhile cnd b))) ->
+  Lemma vm_loop cnd b base pre post kk k scope :
+    instr = pre ++ P.strip (fst (P.stmt_code k scope base (P.SWhile cnd b))) ++ post ->
+    consts_at base (snd (P.stmt_code k scope base (P.SWhile cnd b))) ->
     below + P.sneed (P.SWhile cnd b) <= MAXSTACK ->
-    F.wf kk cnd = true -> P.wf_stmts false true kk b = true ->
+    F.wf kk cnd = true -> P.wf_stmts true kk b = true ->
     forall m, (forall j, j < m -> stmt_vm j) ->
-    forall rho room s r L bt ct, length rho = kk -> vm_inv rho room s ->
+    forall rho s r L bt ct, length rho = kk -> vm_inv rho scope s -> slots_ok k (P.ndecls b) scope s ->
     P.run_stmt m rho (P.SWhile cnd b) = Some r ->
     PF.no_ctl r /\
-    after r room s (length pre) (length pre + length (fst (P.stmt_code kk base (P.SWhile cnd b)))) L bt ct (fun _ => []).
+    after r (good scope s) (good scope s) s
+          (length pre) (length pre + length (fst (P.stmt_code k scope base (P.SWhile cnd b)))) L bt ct (fun _ => []).
   Proof.
     intros Hi Hc Hn Hwc Hwb.
     rewrite PF.code_SWhile in *. rewrite PF.sneed_SWhile in Hn.
-    destruct (F.cexp base cnd) as [cc kc] eqn:Ec.
-    destruct (P.block_code kk (base + length kc) b) as [cb kb] eqn:Eb. cbv zeta in *. cbn [fst snd] in *.
+    destruct (cexp_in scope base cnd) as [cc kc] eqn:Ec.
+    destruct (P.block_code k scope (base + length kc) b) as [cb kb] eqn:Eb. cbv zeta in *. cbn [fst snd] in *.
     set (inner := I cc ++ I [opPopJumpForwardIfFalse; (nlen cb + 6)%N] ++ cb ++ I [opPopTop]) in *.
     set (len := length cc + 2 + length cb + 1).
     assert (Hlen : length inner = len) by (unfold inner, len; rewrite !app_length, !I_length; cbn [length]; lia).
@@ -442,18 +535,18 @@ Section VarVM.
     assert (HQ : length Q = length Pp + 2) by (unfold Q; rewrite app_length; reflexivity).
     set (R := Q ++ pb).
     assert (HR : length R = length Q + length cb) by (unfold R; rewrite app_length, Hlpb; reflexivity).
-    assert (Hic : instr = pre ++ fst (F.cexp base cnd) ++ ([opPopJumpForwardIfFalse; off] ++ pb ++ [opPopTop] ++ [opJumpBackward; jb; opNop] ++ post))
+    assert (Hic : instr = pre ++ fst (cexp_in scope base cnd) ++ ([opPopJumpForwardIfFalse; off] ++ pb ++ [opPopTop] ++ [opJumpBackward; jb; opNop] ++ post))
       by (rewrite Ec; cbn [fst]; rewrite Hi, <- !app_assoc; reflexivity).
-    assert (Hkc : consts_at base (snd (F.cexp base cnd))) by (rewrite Ec; exact (consts_l kc kb base Hc)).
+    assert (Hkc : consts_at base (snd (cexp_in scope base cnd))) by (rewrite Ec; exact (consts_l kc kb base Hc)).
     assert (Hc1 : instr = Pp ++ opPopJumpForwardIfFalse :: off :: (pb ++ [opPopTop] ++ [opJumpBackward; jb; opNop] ++ post))
       by (rewrite Hi; unfold Pp; rewrite <- !app_assoc; reflexivity).
-    assert (Hib : instr = Q ++ npatch (length Q - length pre) (len + 2) len (fst (P.block_code kk (base + length kc) b)) ++
+    assert (Hib : instr = Q ++ npatch (length Q - length pre) (len + 2) len (fst (P.block_code k scope (base + length kc) b)) ++
                           ([opPopTop] ++ [opJumpBackward; jb; opNop] ++ post)).
     { rewrite Eb. cbn [fst]. replace (length Q - length pre) with (length cc + 2) by (rewrite HQ, HP; lia).
       fold pb. rewrite Hi. unfold Q, Pp. rewrite <- !app_assoc. reflexivity. }
-    assert (Hkb : consts_at (base + length kc) (snd (P.block_code kk (base + length kc) b)))
+    assert (Hkb : consts_at (base + length kc) (snd (P.block_code k scope (base + length kc) b)))
       by (rewrite Eb; exact (consts_r kc kb base Hc)).
-    assert (Hinb : inside true Q (length (fst (P.block_code kk (base + length kc) b))) (length pre) (len + 2) len).
+    assert (Hinb : inside true Q (length (fst (P.block_code k scope (base + length kc) b))) (length pre) (len + 2) len).
     { rewrite Eb. cbn [fst]. intros _. rewrite HQ, HP. unfold len. repeat split; lia. }
     assert (Hpop : instr = R ++ opPopTop :: (opJumpBackward :: jb :: opNop :: post))
       by (rewrite Hi; unfold R, Q, Pp; rewrite <- !app_assoc; reflexivity).
@@ -464,11 +557,11 @@ Section VarVM.
       by (rewrite Hi; unfold R, Q, Pp; rewrite <- !app_assoc; reflexivity).
     assert (HR3 : length (R ++ [opPopTop; opJumpBackward; jb]) = length R + 3) by (rewrite app_length; reflexivity).
     assert (HposJ : S (length R) = length pre + len) by (rewrite HR, HQ, HP; unfold len; lia).
-    induction m as [|m IH]; intros Hst rho room s r L bt ct Hkk Hinv Hr; [discriminate|].
+    induction m as [|m IH]; intros Hst rho s r L bt ct Hkk Hinv Hsl Hr; [discriminate|].
     rewrite PF.run_SWhile in Hr.
-    pose proof (vm_inv_globals_ok rho room s Hinv) as Hg.
+    pose proof (vm_inv_globals_at rho scope s Hinv) as Hg.
     rewrite <- Hkk in Hwc.
-    destruct (vm_scalar tabs c below frames free defers is_main s rho Hg cnd base pre _ [] Hwc Hic Hkc ltac:(cbn [length]; lia)) as [n1 Hr1].
+    destruct (vm_scalar_at tabs c below frames free defers is_main s (P.slot_of scope) rho Hg cnd base pre _ [] Hwc Hic Hkc ltac:(cbn [length]; lia)) as [n1 Hr1].
     rewrite Ec in Hr1. cbn [fst] in Hr1. unfold outcome_of in Hr1. rewrite <- HP in Hr1.
     destruct (F.sev rho cnd) as [vc|xc].
     2:{ inversion Hr; subst r. split; [exact Logic.I|]. exists n1, s. exact Hr1. }
@@ -482,45 +575,45 @@ Section VarVM.
       destruct (F.struthy vc); reflexivity. }
     destruct (F.struthy vc) eqn:Etr.
     2:{ (* the loop ends *)
-        inversion Hr; subst r. split; [exact Logic.I|]. exists (n1 + 1), s. split; [exact Hinv|]. intros f.
+        inversion Hr; subst r. split; [exact Logic.I|]. exists (n1 + 1), s. split; [split; [exact Hinv|reflexivity]|]. intros f.
         rewrite <- Nat.add_assoc, Hr1. cbn [Nat.add]. rewrite Hs1, Hcodelen, HP. unfold len.
         replace (length pre + length cc + (length cb + 6)) with (length pre + (length cc + 2 + length cb + 1 + 3)) by lia.
         reflexivity. }
     (* one round *)
-    rewrite <- Hkk in Hwb, Hib, Hkb, Hinb.
+    rewrite <- Hkk in Hwb.
     (* back at the start of the loop with the variables rho1 *)
-    assert (Hagain : forall rho1 s1 k0, length rho1 = length rho -> vm_inv rho1 room s1 ->
+    assert (Hagain : forall rho1 s1 k0, length rho1 = length rho -> good scope s rho1 s1 ->
               (forall f, runs (k0 + f) (length pre) [] s = runs f (length pre) [] s1) ->
               P.run_stmt m rho1 (P.SWhile cnd b) = Some r ->
               PF.no_ctl r /\
-              after r room s (length pre) (length pre + length (patch 0 (N.of_nat (len + 2)) jb inner ++ I [opJumpBackward; jb; opNop]))
+              after r (good scope s) (good scope s) s (length pre) (length pre + length (patch 0 (N.of_nat (len + 2)) jb inner ++ I [opJumpBackward; jb; opNop]))
                     L bt ct (fun _ => [])).
-    { intros rho1 s1 k0 Hl1 Hinv1 Hround Hr'.
-      destruct (IH ltac:(intros j Hj; apply Hst; lia) rho1 room s1 r L bt ct ltac:(lia) Hinv1 Hr') as [Hno [n3 [s3 Hr3]]].
+    { intros rho1 s1 k0 Hl1 [Hinv1 Hgl1] Hround Hr'.
+      destruct (IH ltac:(intros j Hj; apply Hst; lia) rho1 s1 r L bt ct ltac:(lia) Hinv1 (slots_ok_state _ _ _ s s1 Hsl Hgl1) Hr') as [Hno [n3 [s3 Hr3]]].
       split; [exact Hno|]. exists (k0 + n3), s3.
       destruct r as [[rho3 v3]|[x3|rho3|rho3]]; cbn [PF.no_ctl] in Hno; try contradiction.
-      - destruct Hr3 as [Hinv3 Hr3]. split; [exact Hinv3|]. intros f. rewrite <- Nat.add_assoc, Hround. apply Hr3.
+      - destruct Hr3 as [Hinv3 Hr3]. split; [exact (good_trans _ _ _ _ _ Hgl1 Hinv3)|]. intros f. rewrite <- Nat.add_assoc, Hround. apply Hr3.
       - intros f. rewrite <- Nat.add_assoc, Hround. apply Hr3. }
     assert (Hjump : forall f s1, runs (S f) (S (length R)) [] s1 = runs f (length pre) [] s1).
     { intros f s1. rewrite (step_jumpback f (S (length R)) [] s1) by (rewrite Hjmp, <- HR1; apply at0).
       assert (E : nth (S (length R) + 1) instr 0%N = jb) by (rewrite Hjmp, <- HR1; apply at1).
       rewrite E, Hjbn, HposJ. replace (length pre + len - len) with (length pre) by lia. reflexivity. }
-    destruct (P.run_stmts m rho b F.VNil) as [[[rho1 v1]|[xb|rho1|rho1]]|] eqn:Erb; [| | | |discriminate].
-    - destruct (vm_block m (Hst m ltac:(lia)) b rho room s (base + length kc) Q _ true (length pre) (len + 2) len _ Hinv Hwb Hib Hkb ltac:(lia) Hinb Erb)
+    destruct (PF.run_blk m rho b) as [[[rho1 v1]|[xb|rho1|rho1]]|] eqn:Erb; [| | | |discriminate].
+    - destruct (vm_block m (Hst m ltac:(lia)) b rho scope k s (base + length kc) Q _ true (length pre) (len + 2) len _ Hinv Hsl Hwb Hib Hkb ltac:(lia) Hinb Erb)
         as [n2 [s1 [Hinv1 Hr2]]].
-      rewrite Hkk, Eb in Hr2. cbn [fst] in Hr2.
-      pose proof (PF.run_stmts_length m b rho F.VNil true _ Hwb Erb) as Hl1. cbn [PF.lens_ok] in Hl1.
+      rewrite Eb in Hr2. cbn [fst] in Hr2.
+      pose proof (PF.run_block_length m b rho _ Erb) as Hl1. cbn [PF.lenb_ok] in Hl1.
       apply (Hagain rho1 s1 (n1 + (1 + (n2 + (1 + 1)))) Hl1 Hinv1); [|exact Hr].
       intros f. rewrite <- !Nat.add_assoc, Hr1. replace (1 + (n2 + (1 + (1 + f)))) with (S (n2 + (S (S f)))) by lia.
       rewrite Hs1, <- HQ, Hr2, <- HR.
       rewrite (step_pop (S f) (length R) [] (inj v1) s1) by (rewrite Hpop; apply at0).
       apply Hjump.
-    - destruct (vm_block m (Hst m ltac:(lia)) b rho room s (base + length kc) Q _ true (length pre) (len + 2) len _ Hinv Hwb Hib Hkb ltac:(lia) Hinb Erb)
+    - destruct (vm_block m (Hst m ltac:(lia)) b rho scope k s (base + length kc) Q _ true (length pre) (len + 2) len _ Hinv Hsl Hwb Hib Hkb ltac:(lia) Hinb Erb)
         as [n2 [s1 Hr2]].
       inversion Hr; subst r. split; [exact Logic.I|]. exists (n1 + (1 + n2)), s1. intros f.
       rewrite <- Nat.add_assoc, Hr1. replace (1 + n2 + f) with (S (n2 + f)) by lia. rewrite Hs1, <- HQ. apply Hr2.
     - (* break: on to the Nop behind the loop *)
-      destruct (vm_block m (Hst m ltac:(lia)) b rho room s (base + length kc) Q _ true (length pre) (len + 2) len _ Hinv Hwb Hib Hkb ltac:(lia) Hinb Erb)
+      destruct (vm_block m (Hst m ltac:(lia)) b rho scope k s (base + length kc) Q _ true (length pre) (len + 2) len _ Hinv Hsl Hwb Hib Hkb ltac:(lia) Hinb Erb)
         as [n2 [s1 [Hinv1 Hr2]]].
       inversion Hr; subst r. split; [exact Logic.I|]. exists (n1 + (1 + (n2 + 1))), s1. split; [exact Hinv1|]. intros f.
       rewrite <- !Nat.add_assoc, Hr1. replace (1 + (n2 + (1 + f))) with (S (n2 + S f)) by lia. rewrite Hs1, <- HQ, Hr2.
@@ -528,84 +621,90 @@ Section VarVM.
       rewrite (step_nop tabs c below frames free defers is_main s1 f (length R + 3) []) by (rewrite Hnop, <- HR3; apply at0).
       rewrite Hcodelen. replace (S (length R + 3)) with (length pre + (len + 3)) by lia. reflexivity.
     - (* continue: on to the JumpBackward *)
-      destruct (vm_block m (Hst m ltac:(lia)) b rho room s (base + length kc) Q _ true (length pre) (len + 2) len _ Hinv Hwb Hib Hkb ltac:(lia) Hinb Erb)
+      destruct (vm_block m (Hst m ltac:(lia)) b rho scope k s (base + length kc) Q _ true (length pre) (len + 2) len _ Hinv Hsl Hwb Hib Hkb ltac:(lia) Hinb Erb)
         as [n2 [s1 [Hinv1 Hr2]]].
-      pose proof (PF.run_stmts_length m b rho F.VNil true _ Hwb Erb) as Hl1. cbn [PF.lens_ok] in Hl1.
+      pose proof (PF.run_block_length m b rho _ Erb) as Hl1. cbn [PF.lenb_ok] in Hl1.
       apply (Hagain rho1 s1 (n1 + (1 + (n2 + 1))) Hl1 Hinv1); [|exact Hr].
       intros f. rewrite <- !Nat.add_assoc, Hr1. replace (1 + (n2 + (1 + f))) with (S (n2 + S f)) by lia.
       rewrite Hs1, <- HQ, Hr2. rewrite <- HposJ. apply Hjump.
   Qed.
 
+
   Theorem vm_stmt : forall n, stmt_vm n.
   Proof.
     induction n as [n IH] using lt_wf_ind.
-    destruct n as [|n]; [intros st rho room s base pre post top lp L bt ct r _ _ _ _ _ _ Hr; discriminate|].
-    intros st rho room s base pre post top lp L bt ct r Hinv Hwf Hi Hc Hn Hin Hr.
+    destruct n as [|n]; [intros st rho scope k s base pre post lp L bt ct r _ _ _ _ _ _ _ Hr; discriminate|].
+    intros st rho scope k s base pre post lp L bt ct r Hinv Hsl Hwf Hi Hc Hn Hin Hr.
     destruct st as [e|i e|i o e|i up|e|cnd t el|cnd t|cnd b| |].
     - (* x := e *)
-      cbn [P.stmt_code P.wf_stmt P.is_expr_stmt P.run_stmt P.sneed P.ndecls Nat.add] in *.
-      apply andb_true_iff in Hwf. destruct Hwf as [_ Hwf].
-      destruct (F.cexp base e) as [ce ke] eqn:Ee. cbn [fst snd] in *. rewrite npatch_I in Hi. rewrite I_length.
-      assert (Hi' : instr = pre ++ fst (F.cexp base e) ++ [opStoreGlobal; N.of_nat (length rho)] ++ post)
+      cbn [P.stmt_code P.wf_stmt P.is_expr_stmt P.run_stmt P.sneed P.nd P.next_scope] in *.
+      destruct (cexp_in scope base e) as [ce ke] eqn:Ee. cbn [fst snd] in *. rewrite npatch_I in Hi. rewrite I_length.
+      assert (Hi' : instr = pre ++ fst (cexp_in scope base e) ++ [opStoreGlobal; N.of_nat k] ++ post)
         by (rewrite Ee; cbn [fst]; rewrite Hi, <- !app_assoc; reflexivity).
-      assert (Hc' : consts_at base (snd (F.cexp base e))) by (rewrite Ee; exact Hc).
-      destruct (vm_store rho _ s e base pre post (length rho) Hinv Hwf Hi' Hc' Hn) as [k Hk].
+      assert (Hc' : consts_at base (snd (cexp_in scope base e))) by (rewrite Ee; exact Hc).
+      destruct (vm_store rho scope s e base pre post k Hinv Hwf Hi' Hc' Hn) as [k1 Hk].
       rewrite Ee in Hk. cbn [fst] in Hk.
       destruct (F.sev rho e) as [v|x]; cbn [P.of_sev] in Hr; inversion Hr; subst r.
-      + exists k, (upd_globals s (lset (globals s) (length rho) (inj v))).
-        split; [apply vm_inv_decl; exact Hinv|exact Hk].
-      + exists k, s. exact Hk.
+      + exists k1, (upd_globals s (lset (globals s) k (inj v))).
+        split; [split; [apply vm_inv_decl; assumption|apply length_lset]|exact Hk].
+      + exists k1, s. exact Hk.
     - (* x = e *)
-      cbn [P.stmt_code P.wf_stmt P.is_expr_stmt P.run_stmt P.sneed P.ndecls Nat.add] in *.
+      cbn [P.stmt_code P.wf_stmt P.is_expr_stmt P.run_stmt P.sneed P.nd P.next_scope] in *.
       apply andb_true_iff in Hwf. destruct Hwf as [Hilt Hwf]. apply Nat.ltb_lt in Hilt.
-      destruct (F.cexp base e) as [ce ke] eqn:Ee. cbn [fst snd] in *. rewrite npatch_I in Hi. rewrite I_length.
-      assert (Hi' : instr = pre ++ fst (F.cexp base e) ++ [opStoreGlobal; N.of_nat i] ++ post)
+      destruct (cexp_in scope base e) as [ce ke] eqn:Ee. cbn [fst snd] in *. rewrite npatch_I in Hi. rewrite I_length.
+      assert (Hi' : instr = pre ++ fst (cexp_in scope base e) ++ [opStoreGlobal; N.of_nat (P.slot_of scope i)] ++ post)
         by (rewrite Ee; cbn [fst]; rewrite Hi, <- !app_assoc; reflexivity).
-      assert (Hc' : consts_at base (snd (F.cexp base e))) by (rewrite Ee; exact Hc).
-      destruct (vm_store rho _ s e base pre post i Hinv Hwf Hi' Hc' Hn) as [k Hk].
+      assert (Hc' : consts_at base (snd (cexp_in scope base e))) by (rewrite Ee; exact Hc).
+      destruct (vm_store rho scope s e base pre post (P.slot_of scope i) Hinv Hwf Hi' Hc' Hn) as [k1 Hk].
       rewrite Ee in Hk. cbn [fst] in Hk.
       destruct (F.sev rho e) as [v|x]; cbn [P.of_sev] in Hr; inversion Hr; subst r.
-      + exists k, (upd_globals s (lset (globals s) i (inj v))).
-        split; [apply vm_inv_set; assumption|exact Hk].
-      + exists k, s. exact Hk.
+      + exists k1, (upd_globals s (lset (globals s) (P.slot_of scope i) (inj v))).
+        split; [split; [apply vm_inv_set; assumption|apply length_lset]|exact Hk].
+      + exists k1, s. exact Hk.
     - (* x op= e *)
-      cbn [P.stmt_code P.wf_stmt P.is_expr_stmt P.run_stmt P.sneed P.ndecls Nat.add] in *.
+      cbn [P.stmt_code P.wf_stmt P.is_expr_stmt P.run_stmt P.sneed P.nd P.next_scope] in *.
       apply andb_true_iff in Hwf. destruct Hwf as [Hwf Ho]. apply andb_true_iff in Hwf. destruct Hwf as [Hilt Hwf]. apply Nat.ltb_lt in Hilt.
-      destruct (F.cexp base e) as [ce ke] eqn:Ee. cbn [fst snd] in *. rewrite npatch_I in Hi. rewrite I_length.
-      assert (Hi' : instr = pre ++ ([opLoadGlobal; N.of_nat i] ++ fst (F.cexp base e) ++ F.op_code o ++ [opStoreGlobal; N.of_nat i]) ++ post)
+      destruct (cexp_in scope base e) as [ce ke] eqn:Ee. cbn [fst snd] in *. rewrite npatch_I in Hi. rewrite I_length.
+      assert (Hi' : instr = pre ++ ([opLoadGlobal; N.of_nat (P.slot_of scope i)] ++ fst (cexp_in scope base e) ++ F.op_code o ++ [opStoreGlobal; N.of_nat (P.slot_of scope i)]) ++ post)
         by (rewrite Ee; cbn [fst]; exact Hi).
-      assert (Hc' : consts_at base (snd (F.cexp base e))) by (rewrite Ee; exact Hc).
-      destruct (vm_setop rho _ s i o e base pre post Hinv Hilt Ho Hwf Hi' Hc' Hn) as [k Hk].
+      assert (Hc' : consts_at base (snd (cexp_in scope base e))) by (rewrite Ee; exact Hc).
+      destruct (vm_setop rho scope s i o e base pre post Hinv Hilt Ho Hwf Hi' Hc' Hn) as [k1 Hk].
       rewrite Ee in Hk. cbn [fst] in Hk.
-      destruct (F.sev rho e) as [v|x]; [|inversion Hr; subst r; exists k, s; exact Hk].
+      destruct (F.sev rho e) as [v|x]; [|inversion Hr; subst r; exists k1, s; exact Hk].
       destruct (F.sbin o (nth i rho F.VNil) v) as [rv|x]; cbn [P.of_sev] in Hr; inversion Hr; subst r.
-      + exists k, (upd_globals s (lset (globals s) i (inj rv))). split; [apply vm_inv_set; assumption|exact Hk].
-      + exists k, s. exact Hk.
+      + exists k1, (upd_globals s (lset (globals s) (P.slot_of scope i) (inj rv))). split; [split; [apply vm_inv_set; assumption|apply length_lset]|exact Hk].
+      + exists k1, s. exact Hk.
     - (* x++ / x-- *)
-      cbn [P.stmt_code P.wf_stmt P.is_expr_stmt P.run_stmt P.sneed P.ndecls Nat.add fst snd] in *. apply Nat.ltb_lt in Hwf.
+      cbn [P.stmt_code P.wf_stmt P.is_expr_stmt P.run_stmt P.sneed P.nd P.next_scope fst snd] in *. apply Nat.ltb_lt in Hwf.
       rewrite npatch_I in Hi. rewrite I_length. cbn [length].
       assert (Hk0 : nth base (code_consts c) (KInt 0) = KInt (if up then 1 else -1)).
       { pose proof (Hc 0 (KInt (if up then 1 else -1)) eq_refl) as H0. rewrite Nat.add_0_r in H0. exact H0. }
-      destruct (vm_incdec rho _ s i up base pre post Hinv Hwf Hi Hk0 ltac:(lia)) as [k Hk].
+      destruct (vm_incdec rho scope s i up base pre post Hinv Hwf Hi Hk0 ltac:(lia)) as [k1 Hk].
       destruct (F.sbin F.BAdd (nth i rho F.VNil) (F.VInt (if up then 1 else -1))) as [rv|x]; cbn [P.of_sev] in Hr; inversion Hr; subst r.
-      + exists k, (upd_globals s (lset (globals s) i (inj rv))). split; [apply vm_inv_set; assumption|exact Hk].
-      + exists k, s. exact Hk.
+      + exists k1, (upd_globals s (lset (globals s) (P.slot_of scope i) (inj rv))). split; [split; [apply vm_inv_set; assumption|apply length_lset]|exact Hk].
+      + exists k1, s. exact Hk.
     - (* e *)
-      cbn [P.stmt_code P.islots P.wf_stmt P.is_expr_stmt P.run_stmt P.sneed P.ndecls Nat.add fst snd] in *.
+      cbn [P.stmt_code P.wf_stmt P.is_expr_stmt P.run_stmt P.sneed P.nd P.next_scope fst snd] in *.
+      destruct (cexp_in scope base e) as [ce ke] eqn:Ee. cbn [fst snd] in *.
       rewrite npatch_I in Hi. rewrite I_length.
-      pose proof (vm_inv_globals_ok rho _ s Hinv) as Hg.
-      destruct (vm_scalar tabs c below frames free defers is_main s rho Hg e base pre post [] Hwf Hi Hc ltac:(cbn [length]; lia)) as [k Hk].
-      unfold outcome_of in Hk. exists k, s.
-      destruct (F.sev rho e) as [v|x]; cbn [P.of_sev] in Hr; inversion Hr; subst r; [split; [exact Hinv|]|]; exact Hk.
+      pose proof (vm_inv_globals_at rho scope s Hinv) as Hg.
+      assert (Hi' : instr = pre ++ fst (cexp_in scope base e) ++ post) by (rewrite Ee; exact Hi).
+      assert (Hc' : consts_at base (snd (cexp_in scope base e))) by (rewrite Ee; exact Hc).
+      destruct (vm_scalar_at tabs c below frames free defers is_main s (P.slot_of scope) rho Hg e base pre post [] Hwf Hi' Hc' ltac:(cbn [length]; lia)) as [k1 Hk].
+      rewrite Ee in Hk. cbn [fst] in Hk.
+      unfold outcome_of in Hk. exists k1, s.
+      destruct (F.sev rho e) as [v|x]; cbn [P.of_sev] in Hr; inversion Hr; subst r; [split; [split; [exact Hinv|reflexivity]|]|]; exact Hk.
     - (* if *)
-      pose proof (vm_inv_globals_ok rho _ s Hinv) as Hg.
+      pose proof (vm_inv_globals_at rho scope s Hinv) as Hg.
       rewrite PF.wf_SIf in Hwf. apply andb_true_iff in Hwf. destruct Hwf as [Hwct Hwe].
       apply andb_true_iff in Hwct. destruct Hwct as [Hwc Hwt].
-      rewrite PF.code_SIf in *. rewrite PF.sneed_SIf in Hn. rewrite PF.run_SIf in Hr.
-      cbn [P.ndecls Nat.add P.is_expr_stmt] in *.
-      destruct (F.cexp base cnd) as [cc kc] eqn:Ec.
-      destruct (P.block_code (length rho) (base + length kc) t) as [ct0 kt] eqn:Et.
-      destruct (P.block_code (length rho) (base + length kc + length kt) el) as [ce0 ke] eqn:Ee. cbn [fst snd] in *.
+      rewrite PF.code_SIf in *. rewrite PF.sneed_SIf in Hn. rewrite PF.run_SIf in Hr. rewrite PF.nd_SIf in Hsl.
+      assert (Hslt : slots_ok k (P.ndecls t) scope s) by (apply (slots_ok_less _ _ _ _ _ Hsl); lia).
+      assert (Hsle : slots_ok (k + P.ndecls t) (P.ndecls el) scope s) by (apply slots_ok_shift; exact Hsl).
+      cbn [P.next_scope P.is_expr_stmt] in *.
+      destruct (cexp_in scope base cnd) as [cc kc] eqn:Ec.
+      destruct (P.block_code k scope (base + length kc) t) as [ct0 kt] eqn:Et.
+      destruct (P.block_code (k + P.ndecls t) scope (base + length kc + length kt) el) as [ce0 ke] eqn:Ee. cbn [fst snd] in *.
       set (o := length pre - L) in *.
       rewrite !npatch_app, !npatch_I, !I_length in Hi. cbn [length] in Hi.
       set (pt := npatch (o + length cc + 2) bt ct ct0) in *.
@@ -619,10 +718,10 @@ Section VarVM.
                      length cc + 2 + length ct0 + 2 + length ce0) by (rewrite !app_length, !I_length; cbn [length]; lia).
       rewrite Hlen in Hin |- *.
       (* the condition *)
-      assert (Hic : instr = pre ++ fst (F.cexp base cnd) ++ ([opPopJumpForwardIfFalse; offF] ++ pt ++ [opJumpForward; offJ] ++ pe ++ post))
+      assert (Hic : instr = pre ++ fst (cexp_in scope base cnd) ++ ([opPopJumpForwardIfFalse; offF] ++ pt ++ [opJumpForward; offJ] ++ pe ++ post))
         by (rewrite Ec; cbn [fst]; rewrite Hi, <- !app_assoc; reflexivity).
-      assert (Hkc : consts_at base (snd (F.cexp base cnd))) by (rewrite Ec; exact (consts_l kc (kt ++ ke) base Hc)).
-      destruct (vm_scalar tabs c below frames free defers is_main s rho Hg cnd base pre _ [] Hwc Hic Hkc ltac:(cbn [length]; lia)) as [n1 Hr1].
+      assert (Hkc : consts_at base (snd (cexp_in scope base cnd))) by (rewrite Ec; exact (consts_l kc (kt ++ ke) base Hc)).
+      destruct (vm_scalar_at tabs c below frames free defers is_main s (P.slot_of scope) rho Hg cnd base pre _ [] Hwc Hic Hkc ltac:(cbn [length]; lia)) as [n1 Hr1].
       rewrite Ec in Hr1. cbn [fst] in Hr1. unfold outcome_of in Hr1.
       destruct (F.sev rho cnd) as [vc|xc].
       2:{ inversion Hr; subst r. exists n1, s. exact Hr1. }
@@ -646,14 +745,14 @@ Section VarVM.
         assert (Hpt : pt = npatch (length Q - L) bt ct ct0).
         { unfold pt. apply (npatch_off lp).
           - intros Hl. destruct (Hin Hl) as [H1 _]. rewrite HQ, HP. unfold o. lia.
-          - intros Hl. subst lp. pose proof (block_code_no_ph t (length rho) (base + length kc) Hwt) as H0. rewrite Et in H0. exact H0. }
-        assert (Hit : instr = Q ++ npatch (length Q - L) bt ct (fst (P.block_code (length rho) (base + length kc) t)) ++ ([opJumpForward; offJ] ++ pe ++ post))
+          - intros Hl. subst lp. pose proof (block_code_no_ph t (length rho) k scope (base + length kc) Hwt) as H0. rewrite Et in H0. exact H0. }
+        assert (Hit : instr = Q ++ npatch (length Q - L) bt ct (fst (P.block_code k scope (base + length kc) t)) ++ ([opJumpForward; offJ] ++ pe ++ post))
           by (rewrite Et; cbn [fst]; rewrite <- Hpt, Hi; unfold Q, Pp; rewrite <- !app_assoc; reflexivity).
-        assert (Hkt : consts_at (base + length kc) (snd (P.block_code (length rho) (base + length kc) t)))
+        assert (Hkt : consts_at (base + length kc) (snd (P.block_code k scope (base + length kc) t)))
           by (rewrite Et; exact (consts_l kt ke _ Hkrest)).
-        assert (Hint : inside lp Q (length (fst (P.block_code (length rho) (base + length kc) t))) L bt ct).
+        assert (Hint : inside lp Q (length (fst (P.block_code k scope (base + length kc) t))) L bt ct).
         { rewrite Et. cbn [fst]. intros Hl. destruct (Hin Hl) as [H1 [H2 H3]]. rewrite HQ, HP. repeat split; lia. }
-        destruct (vm_block n (IH n ltac:(lia)) t rho room s (base + length kc) Q _ lp L bt ct r Hinv Hwt Hit Hkt ltac:(lia) Hint Hr) as [n2 [s2 Hr2]].
+        destruct (vm_block n (IH n ltac:(lia)) t rho scope k s (base + length kc) Q _ lp L bt ct r Hinv Hslt Hwt Hit Hkt ltac:(lia) Hint Hr) as [n2 [s2 Hr2]].
         rewrite Et in Hr2. cbn [fst] in Hr2. rewrite HQ in Hr2.
         assert (Hpre : forall f, runs (n1 + (1 + (n2 + f))) (length pre) [] s = runs (n2 + f) (length Pp + 2) [] s).
         { intros f. rewrite Hr1, <- HP. replace (1 + (n2 + f)) with (S (n2 + f)) by lia. apply Hs1. }
@@ -677,14 +776,14 @@ Section VarVM.
         assert (Hpe : pe = npatch (length Q - L) bt ct ce0).
         { unfold pe. apply (npatch_off lp).
           - intros Hl. destruct (Hin Hl) as [H1 _]. rewrite HQ, HP. unfold o. lia.
-          - intros Hl. subst lp. pose proof (block_code_no_ph el (length rho) (base + length kc + length kt) Hwe) as H0. rewrite Ee in H0. exact H0. }
-        assert (Hie : instr = Q ++ npatch (length Q - L) bt ct (fst (P.block_code (length rho) (base + length kc + length kt) el)) ++ post)
+          - intros Hl. subst lp. pose proof (block_code_no_ph el (length rho) (k + P.ndecls t) scope (base + length kc + length kt) Hwe) as H0. rewrite Ee in H0. exact H0. }
+        assert (Hie : instr = Q ++ npatch (length Q - L) bt ct (fst (P.block_code (k + P.ndecls t) scope (base + length kc + length kt) el)) ++ post)
           by (rewrite Ee; cbn [fst]; rewrite <- Hpe, Hi; unfold Q, Pp; rewrite <- !app_assoc; reflexivity).
-        assert (Hke : consts_at (base + length kc + length kt) (snd (P.block_code (length rho) (base + length kc + length kt) el)))
+        assert (Hke : consts_at (base + length kc + length kt) (snd (P.block_code (k + P.ndecls t) scope (base + length kc + length kt) el)))
           by (rewrite Ee; exact (consts_r kt ke _ Hkrest)).
-        assert (Hine : inside lp Q (length (fst (P.block_code (length rho) (base + length kc + length kt) el))) L bt ct).
+        assert (Hine : inside lp Q (length (fst (P.block_code (k + P.ndecls t) scope (base + length kc + length kt) el))) L bt ct).
         { rewrite Ee. cbn [fst]. intros Hl. destruct (Hin Hl) as [H1 [H2 H3]]. rewrite HQ, HP. repeat split; lia. }
-        destruct (vm_block n (IH n ltac:(lia)) el rho room s (base + length kc + length kt) Q post lp L bt ct r Hinv Hwe Hie Hke ltac:(lia) Hine Hr) as [n2 [s2 Hr2]].
+        destruct (vm_block n (IH n ltac:(lia)) el rho scope (k + P.ndecls t) s (base + length kc + length kt) Q post lp L bt ct r Hinv Hsle Hwe Hie Hke ltac:(lia) Hine Hr) as [n2 [s2 Hr2]].
         rewrite Ee in Hr2. cbn [fst] in Hr2. rewrite HQ in Hr2.
         assert (Hpre : forall f, runs (n1 + (1 + (n2 + f))) (length pre) [] s = runs (n2 + f) (length Pp + (length ct0 + 4)) [] s).
         { intros f. rewrite Hr1, <- HP. replace (1 + (n2 + f)) with (S (n2 + f)) by lia. apply Hs1. }
@@ -696,12 +795,13 @@ Section VarVM.
         * destruct Hr2 as [Hinv2 Hr2]. split; [exact Hinv2|]. intros f. rewrite <- !Nat.add_assoc, Hpre. exact (Hr2 f).
         * destruct Hr2 as [Hinv2 Hr2]. split; [exact Hinv2|]. intros f. rewrite <- !Nat.add_assoc, Hpre. exact (Hr2 f).
     - (* if without else: the else-branch is a lone Nil *)
-      pose proof (vm_inv_globals_ok rho _ s Hinv) as Hg.
+      pose proof (vm_inv_globals_at rho scope s Hinv) as Hg.
       rewrite PF.wf_SIf1 in Hwf. apply andb_true_iff in Hwf. destruct Hwf as [Hwc Hwt].
-      rewrite PF.code_SIf1 in *. rewrite PF.sneed_SIf1 in Hn. rewrite PF.run_SIf1 in Hr.
-      cbn [P.ndecls Nat.add P.is_expr_stmt] in *.
-      destruct (F.cexp base cnd) as [cc kc] eqn:Ec.
-      destruct (P.block_code (length rho) (base + length kc) t) as [ct0 kt] eqn:Et. cbn [fst snd] in *.
+      rewrite PF.code_SIf1 in *. rewrite PF.sneed_SIf1 in Hn. rewrite PF.run_SIf1 in Hr. rewrite PF.nd_SIf1 in Hsl.
+      assert (Hslt : slots_ok k (P.ndecls t) scope s) by exact Hsl.
+      cbn [P.next_scope P.is_expr_stmt] in *.
+      destruct (cexp_in scope base cnd) as [cc kc] eqn:Ec.
+      destruct (P.block_code k scope (base + length kc) t) as [ct0 kt] eqn:Et. cbn [fst snd] in *.
       set (o := length pre - L) in *.
       rewrite !npatch_app, !npatch_I, !I_length in Hi. cbn [length] in Hi.
       set (pt := npatch (o + length cc + 2) bt ct ct0) in *.
@@ -711,10 +811,10 @@ Section VarVM.
       assert (Hlen : length (I cc ++ I [opPopJumpForwardIfFalse; offF] ++ ct0 ++ I [opJumpForward; 3%N] ++ I [opNil]) =
                      length cc + 2 + length ct0 + 2 + 1) by (rewrite !app_length, !I_length; cbn [length]; lia).
       rewrite Hlen in Hin |- *.
-      assert (Hic : instr = pre ++ fst (F.cexp base cnd) ++ ([opPopJumpForwardIfFalse; offF] ++ pt ++ [opJumpForward; 3%N] ++ [opNil] ++ post))
+      assert (Hic : instr = pre ++ fst (cexp_in scope base cnd) ++ ([opPopJumpForwardIfFalse; offF] ++ pt ++ [opJumpForward; 3%N] ++ [opNil] ++ post))
         by (rewrite Ec; cbn [fst]; rewrite Hi, <- !app_assoc; reflexivity).
-      assert (Hkc : consts_at base (snd (F.cexp base cnd))) by (rewrite Ec; exact (consts_l kc kt base Hc)).
-      destruct (vm_scalar tabs c below frames free defers is_main s rho Hg cnd base pre _ [] Hwc Hic Hkc ltac:(cbn [length]; lia)) as [n1 Hr1].
+      assert (Hkc : consts_at base (snd (cexp_in scope base cnd))) by (rewrite Ec; exact (consts_l kc kt base Hc)).
+      destruct (vm_scalar_at tabs c below frames free defers is_main s (P.slot_of scope) rho Hg cnd base pre _ [] Hwc Hic Hkc ltac:(cbn [length]; lia)) as [n1 Hr1].
       rewrite Ec in Hr1. cbn [fst] in Hr1. unfold outcome_of in Hr1.
       destruct (F.sev rho cnd) as [vc|xc].
       2:{ inversion Hr; subst r. exists n1, s. exact Hr1. }
@@ -737,14 +837,14 @@ Section VarVM.
         assert (Hpt : pt = npatch (length Q - L) bt ct ct0).
         { unfold pt. apply (npatch_off lp).
           - intros Hl. destruct (Hin Hl) as [H1 _]. rewrite HQ, HP. unfold o. lia.
-          - intros Hl. subst lp. pose proof (block_code_no_ph t (length rho) (base + length kc) Hwt) as H0. rewrite Et in H0. exact H0. }
-        assert (Hit : instr = Q ++ npatch (length Q - L) bt ct (fst (P.block_code (length rho) (base + length kc) t)) ++ ([opJumpForward; 3%N] ++ [opNil] ++ post))
+          - intros Hl. subst lp. pose proof (block_code_no_ph t (length rho) k scope (base + length kc) Hwt) as H0. rewrite Et in H0. exact H0. }
+        assert (Hit : instr = Q ++ npatch (length Q - L) bt ct (fst (P.block_code k scope (base + length kc) t)) ++ ([opJumpForward; 3%N] ++ [opNil] ++ post))
           by (rewrite Et; cbn [fst]; rewrite <- Hpt, Hi; unfold Q, Pp; rewrite <- !app_assoc; reflexivity).
-        assert (Hkt : consts_at (base + length kc) (snd (P.block_code (length rho) (base + length kc) t)))
+        assert (Hkt : consts_at (base + length kc) (snd (P.block_code k scope (base + length kc) t)))
           by (rewrite Et; exact (consts_r kc kt base Hc)).
-        assert (Hint : inside lp Q (length (fst (P.block_code (length rho) (base + length kc) t))) L bt ct).
+        assert (Hint : inside lp Q (length (fst (P.block_code k scope (base + length kc) t))) L bt ct).
         { rewrite Et. cbn [fst]. intros Hl. destruct (Hin Hl) as [H1 [H2 H3]]. rewrite HQ, HP. repeat split; lia. }
-        destruct (vm_block n (IH n ltac:(lia)) t rho room s (base + length kc) Q _ lp L bt ct r Hinv Hwt Hit Hkt ltac:(lia) Hint Hr) as [n2 [s2 Hr2]].
+        destruct (vm_block n (IH n ltac:(lia)) t rho scope k s (base + length kc) Q _ lp L bt ct r Hinv Hslt Hwt Hit Hkt ltac:(lia) Hint Hr) as [n2 [s2 Hr2]].
         rewrite Et in Hr2. cbn [fst] in Hr2. rewrite HQ in Hr2.
         assert (Hpre : forall f, runs (n1 + (1 + (n2 + f))) (length pre) [] s = runs (n2 + f) (length Pp + 2) [] s).
         { intros f. rewrite Hr1, <- HP. replace (1 + (n2 + f)) with (S (n2 + f)) by lia. apply Hs1. }
@@ -767,7 +867,7 @@ Section VarVM.
         set (Q := Pp ++ [opPopJumpForwardIfFalse; offF] ++ pt ++ [opJumpForward; 3%N]).
         assert (HQ : length Q = length Pp + (length ct0 + 4)) by (unfold Q; rewrite !app_length, Hlpt; cbn [length]; lia).
         assert (Hnil : instr = Q ++ opNil :: post) by (rewrite Hi; unfold Q, Pp; rewrite <- !app_assoc; reflexivity).
-        exists (n1 + (1 + 1)), s. split; [exact Hinv|]. intros f.
+        exists (n1 + (1 + 1)), s. split; [split; [exact Hinv|reflexivity]|]. intros f.
         rewrite <- Nat.add_assoc, Hr1, <- HP. replace (1 + 1 + f) with (S (S f)) by lia. rewrite Hs1, <- HQ.
         rewrite (step_push tabs c below frames free defers is_main s f (length Q) [] opNil VNil);
           [|rewrite Hnil; apply at0|auto|pose proof (PF.need_pos cnd); cbn [length]; lia].
@@ -775,71 +875,74 @@ Section VarVM.
         f_equal; rewrite ?HP; cbn [length]; lia.
     - (* for *)
       rewrite PF.wf_SWhile in Hwf. apply andb_true_iff in Hwf. destruct Hwf as [Hwc Hwb].
-      cbn [P.ndecls Nat.add P.is_expr_stmt] in *.
-      assert (Hnp : no_ph (fst (P.stmt_code (length rho) base (P.SWhile cnd b)))).
-      { rewrite PF.code_SWhile. destruct (F.cexp base cnd). destruct (P.block_code (length rho) (base + length l0) b).
+      cbn [P.next_scope P.is_expr_stmt] in *.
+      assert (Hnp : no_ph (fst (P.stmt_code k scope base (P.SWhile cnd b)))).
+      { rewrite PF.code_SWhile. destruct (cexp_in scope base cnd). destruct (P.block_code k scope (base + length l0) b).
         cbv zeta. cbn [fst]. apply no_ph_app; [apply no_ph_patch|apply no_ph_I]. }
       rewrite (npatch_no_ph bt ct _ _ Hnp) in Hi.
-      exact (proj2 (vm_loop cnd b base pre post (length rho) Hi Hc Hn Hwc Hwb (S n) ltac:(intros j Hj; apply IH; lia)
-                     rho room s r L bt ct eq_refl Hinv Hr)).
+      rewrite PF.nd_SWhile in Hsl.
+      exact (proj2 (vm_loop cnd b base pre post (length rho) k scope Hi Hc Hn Hwc Hwb (S n) ltac:(intros j Hj; apply IH; lia)
+                     rho s r L bt ct eq_refl Hinv Hsl Hr)).
     - (* break: jump to the loop's break target *)
       cbn [P.wf_stmt] in Hwf. subst lp. destruct (Hin eq_refl) as [H1 [H2 H3]].
       cbn [P.run_stmt] in Hr. inversion Hr; subst r. clear Hr.
-      cbn [P.stmt_code fst snd npatch length P.ndecls Nat.add] in *.
-      exists 1, s. split; [exact Hinv|]. intros f. cbn [Nat.add].
+      cbn [P.stmt_code fst snd npatch length P.next_scope] in *.
+      exists 1, s. split; [split; [exact Hinv|reflexivity]|]. intros f. cbn [Nat.add].
       rewrite (step_jump tabs c below frames free defers is_main s f (length pre) []) by (rewrite Hi; apply at0).
       assert (E : nth (length pre + 1) instr 0%N = N.of_nat (bt - (S (length pre - L) - 1))) by (rewrite Hi; apply at1).
       rewrite E, Nat2N.id. replace (length pre + (bt - (S (length pre - L) - 1))) with (L + bt) by lia. reflexivity.
     - (* continue *)
       cbn [P.wf_stmt] in Hwf. subst lp. destruct (Hin eq_refl) as [H1 [H2 H3]].
       cbn [P.run_stmt] in Hr. inversion Hr; subst r. clear Hr.
-      cbn [P.stmt_code fst snd npatch length P.ndecls Nat.add] in *.
-      exists 1, s. split; [exact Hinv|]. intros f. cbn [Nat.add].
+      cbn [P.stmt_code fst snd npatch length P.next_scope] in *.
+      exists 1, s. split; [split; [exact Hinv|reflexivity]|]. intros f. cbn [Nat.add].
       rewrite (step_jump tabs c below frames free defers is_main s f (length pre) []) by (rewrite Hi; apply at0).
       assert (E : nth (length pre + 1) instr 0%N = N.of_nat (ct - (S (length pre - L) - 1))) by (rewrite Hi; apply at1).
       rewrite E, Nat2N.id. replace (length pre + (ct - (S (length pre - L) - 1))) with (L + ct) by lia. reflexivity.
   Qed.
 
-  (* a whole program: not inside any loop *)
-  Lemma vm_prog n : forall l rho room s base pre post last r,
-    l <> [] -> vm_inv rho (P.ndecls l + room) s -> P.wf_stmts true false (length rho) l = true ->
-    instr = pre ++ fst (P.pcode (length rho) base l) ++ post ->
-    consts_at base (snd (P.pcode (length rho) base l)) ->
+  (* a statement list that is not inside any loop *)
+  Lemma vm_prog n : forall l rho scope k s base pre post last r,
+    l <> [] -> vm_inv rho scope s -> slots_ok k (P.ndecls l) scope s -> P.wf_stmts false (length rho) l = true ->
+    instr = pre ++ P.strip (fst (P.scode k scope base l)) ++ post ->
+    consts_at base (snd (P.scode k scope base l)) ->
     below + P.max_need l <= MAXSTACK ->
     P.run_stmts n rho l last = Some r ->
-    after r room s (length pre) (length pre + length (fst (P.pcode (length rho) base l))) 0 0 0 (fun v => [inj v]).
+    after r (good (scope_after k scope l) s) (good_ext scope s) s
+          (length pre) (length pre + length (P.strip (fst (P.scode k scope base l)))) 0 0 0 (fun v => [inj v]).
   Proof.
-    intros l rho room s base pre post last r Hne Hinv Hwf Hi Hc Hn Hr.
-    unfold P.pcode in *. cbn [fst snd] in *. rewrite strip_length.
-    rewrite <- (npatch_no_ph 0 0 _ (length pre - 0) (scode_no_ph l true (length rho) base Hwf)) in Hi.
-    exact (vm_list n (vm_stmt n) l rho room s base pre post last true false 0 0 0 r Hne Hinv Hwf Hi Hc Hn
+    intros l rho scope k s base pre post last r Hne Hinv Hsl Hwf Hi Hc Hn Hr.
+    rewrite strip_length.
+    rewrite <- (npatch_no_ph 0 0 _ (length pre - 0) (scode_no_ph l (length rho) k scope base Hwf)) in Hi.
+    exact (vm_list n (vm_stmt n) l rho scope k s base pre post last false 0 0 0 r Hne Hinv Hsl Hwf Hi Hc Hn
              ltac:(intros H; discriminate) Hr).
   Qed.
 
   (* a statement that is not inside a loop, stated without the loop context: its code has no placeholder, and it can only
      end normally or with an error *)
-  Theorem vm_stmt_plain n st rho room s base pre post top r :
-    vm_inv rho (P.ndecls [st] + room) s -> P.wf_stmt top false (length rho) st = true ->
-    instr = pre ++ P.strip (fst (P.stmt_code (length rho) base st)) ++ post ->
-    consts_at base (snd (P.stmt_code (length rho) base st)) ->
+  Theorem vm_stmt_plain n st rho scope k s base pre post r :
+    vm_inv rho scope s -> slots_ok k (P.nd st) scope s -> P.wf_stmt false (length rho) st = true ->
+    instr = pre ++ P.strip (fst (P.stmt_code k scope base st)) ++ post ->
+    consts_at base (snd (P.stmt_code k scope base st)) ->
     below + P.sneed st <= MAXSTACK ->
     P.run_stmt n rho st = Some r ->
-    exists k s',
+    exists j s',
       match r with
       | inl (rho', v) =>
-          vm_inv rho' room s' /\
-          forall f, runs (k + f) (length pre) [] s =
-                    runs f (length pre + length (fst (P.stmt_code (length rho) base st)))
+          vm_inv rho' (P.next_scope k scope st) s' /\
+          forall f, runs (j + f) (length pre) [] s =
+                    runs f (length pre + length (fst (P.stmt_code k scope base st)))
                          (if P.is_expr_stmt st then [inj v] else []) s'
-      | inr (P.StErr x) => forall f, runs (k + f) (length pre) [] s = (RErr (cls x) s', defers)
+      | inr (P.StErr x) => forall f, runs (j + f) (length pre) [] s = (RErr (cls x) s', defers)
       | inr _ => False
       end.
   Proof.
-    intros Hinv Hwf Hi Hc Hn Hr.
-    pose proof (PF.no_escape n rho st top r Hwf Hr) as Hno.
-    assert (Hnp : no_ph (fst (P.stmt_code (length rho) base st))) by (exact (stmt_no_ph _ st top (length rho) base (le_n _) Hwf)).
+    intros Hinv Hsl Hwf Hi Hc Hn Hr.
+    pose proof (PF.no_escape n rho st r (length rho) Hwf Hr) as Hno.
+    assert (Hnp : no_ph (fst (P.stmt_code k scope base st))) by (exact (stmt_no_ph _ st (length rho) k scope base (le_n _) Hwf)).
     rewrite <- (npatch_no_ph 0 0 _ (length pre - 0) Hnp) in Hi.
-    destruct (vm_stmt n st rho room s base pre post top false 0 0 0 r Hinv Hwf Hi Hc Hn ltac:(intros H; discriminate) Hr) as [k [s' H]].
-    exists k, s'. destruct r as [[rho' v]|[x|rho'|rho']]; cbn [PF.no_ctl] in Hno; try contradiction; exact H.
+    destruct (vm_stmt n st rho scope k s base pre post false 0 0 0 r Hinv Hsl Hwf Hi Hc Hn ltac:(intros H; discriminate) Hr) as [j [s' H]].
+    exists j, s'. destruct r as [[rho' v]|[x|rho'|rho']]; cbn [PF.no_ctl] in Hno; try contradiction; [|exact H].
+    destruct H as [[H1 _] H2]. split; assumption.
   Qed.
 End VarVM.
